@@ -711,11 +711,143 @@ def SortedHeap (h : Heap) : Prop := ∀ id b, getB h id = .ok b → b.isObj = tr
 /-- no block holds a handle to itself -/
 def NoSelf (h : Heap) : Prop := ∀ id b, getB h id = .ok b → ∀ v ∈ bvals b, handleOf v ≠ some id
 
+/-! ## acyclicity -/
+
+/-- block `x` stores a handle to block `y` -/
+def Edge (h : Heap) (x y : Nat) : Prop := ∃ b, getB h x = .ok b ∧ ∃ v ∈ bvals b, handleOf v = some y
+
+/-- the handle graph has a rank function that decreases along every edge: no cycles -/
+def Ranked (h : Heap) : Prop := ∃ rank : Nat → Nat, ∀ x y, Edge h x y → rank y < rank x
+
+inductive Reach (h : Heap) : Nat → Nat → Prop
+  | refl (x : Nat) : Reach h x x
+  | step {x y z : Nat} : Edge h x y → Reach h y z → Reach h x z
+
+theorem Reach.trans {h : Heap} {x y z : Nat} (h1 : Reach h x y) (h2 : Reach h y z) : Reach h x z := by
+  induction h1 with
+  | refl _ => exact h2
+  | step e _ ih => exact Reach.step e (ih h2)
+
+theorem Reach.single {h : Heap} {x y : Nat} (e : Edge h x y) : Reach h x y := Reach.step e (Reach.refl y)
+
+theorem Reach.rank_le {h : Heap} {rank : Nat → Nat} (hr : ∀ x y, Edge h x y → rank y < rank x) {x y : Nat}
+    (r : Reach h x y) : rank y ≤ rank x := by
+  induction r with
+  | refl _ => exact Nat.le_refl _
+  | step e _ ih => have := hr _ _ e; omega
+
+/-- a renaming of ids that maps the edges of `h'` to edges of `h` maps paths to paths -/
+theorem Reach.rename {h h' : Heap} (rn : Nat → Nat) (he : ∀ x y, Edge h' x y → Edge h (rn x) (rn y)) {x y : Nat}
+    (r : Reach h' x y) : Reach h (rn x) (rn y) := by
+  induction r with
+  | refl _ => exact Reach.refl _
+  | step e _ ih => exact Reach.step (he _ _ e) ih
+
+theorem Reach.mono {h h' : Heap} (he : ∀ x y, Edge h' x y → Edge h x y) {x y : Nat} (r : Reach h' x y) : Reach h x y :=
+  Reach.rename (fun x => x) he r
+
+theorem Ranked.noself {h : Heap} (rk : Ranked h) : NoSelf h := by
+  obtain ⟨rank, hr⟩ := rk
+  intro id b hb v hv hid
+  have := hr id id ⟨b, hb, v, hv, hid⟩
+  omega
+
+theorem Ranked.rename {h h' : Heap} (rn : Nat → Nat) (he : ∀ x y, Edge h' x y → Edge h (rn x) (rn y)) (rk : Ranked h) :
+    Ranked h' := by
+  obtain ⟨rank, hr⟩ := rk
+  exact ⟨fun x => rank (rn x), fun x y e => hr _ _ (he x y e)⟩
+
+theorem Ranked.mono {h h' : Heap} (he : ∀ x y, Edge h' x y → Edge h x y) (rk : Ranked h) : Ranked h' :=
+  Ranked.rename (fun x => x) he rk
+
+/-- adding the edge `B → c` keeps the graph acyclic when `c` does not reach `B` -/
+theorem Ranked.addEdge {h h' : Heap} {B c : Nat} (he : ∀ x y, Edge h' x y → Edge h x y ∨ (x = B ∧ y = c))
+    (hn : ¬ Reach h c B) (rk : Ranked h) : Ranked h' := by
+  obtain ⟨rank, hr⟩ := rk
+  classical
+  refine ⟨fun x => if Reach h x B then rank x + (rank c + 1) else rank x, ?_⟩
+  intro x y e
+  rcases he x y e with e0 | ⟨rfl, rfl⟩
+  · have hlt := hr x y e0
+    by_cases hy : Reach h y B
+    · have hx : Reach h x B := Reach.step e0 hy
+      simp only [hx, hy, if_true]; omega
+    · by_cases hx : Reach h x B
+      · simp only [hx, hy, if_true, if_false]; omega
+      · simp only [hx, hy, if_false]; exact hlt
+  · have hx : Reach h x x := Reach.refl x
+    simp only [hx, hn, if_true, if_false]; omega
+
+theorem Edge.of_sub {h h' : Heap} (sub : SubItems h h') {x y : Nat} (e : Edge h' x y) : Edge h x y := by
+  obtain ⟨b', hb', v, hv, hid⟩ := e
+  obtain ⟨b, hb, e1, _, _⟩ := sub.2 x b' hb'
+  exact ⟨b, hb, v, by simpa [bvals, e1] using hv, hid⟩
+
+theorem Edge.of_same {h h' : Heap} (e : SameItems h h') {x y : Nat} : Edge h' x y ↔ Edge h x y :=
+  ⟨Edge.of_sub (SubItems.of_same e), Edge.of_sub (SubItems.of_same (Eq.symm e : SameItems h' h))⟩
+
+theorem Ranked.of_sub {h h' : Heap} (sub : SubItems h h') (rk : Ranked h) : Ranked h' :=
+  rk.mono (fun _ _ e => Edge.of_sub sub e)
+
+theorem Reach.of_same {h h' : Heap} (e : SameItems h h') {x y : Nat} : Reach h' x y ↔ Reach h x y :=
+  ⟨Reach.mono (fun _ _ => (Edge.of_same e).mp), Reach.mono (fun _ _ => (Edge.of_same e).mpr)⟩
+
+/-- the edges out of a block whose elements were replaced -/
+theorem Edge.setB {h : Heap} {id : Nat} {b b' : Block} (hb : getB h id = .ok b) {x y : Nat}
+    (e : Edge (setB h id b') x y) : (x ≠ id ∧ Edge h x y) ∨ (x = id ∧ ∃ v ∈ bvals b', handleOf v = some y) := by
+  obtain ⟨bx, hbx, v, hv, hid⟩ := e
+  by_cases hx : x = id
+  · subst hx
+    rw [getB_setB_same _ (getB_lt hb)] at hbx; cases hbx
+    exact Or.inr ⟨rfl, v, hv, hid⟩
+  · rw [Var.setB, getB_set_ne _ hx] at hbx
+    exact Or.inl ⟨hx, bx, hbx, v, hv, hid⟩
+
+/-- an upper bound of the ranks of the handles in a list of values -/
+def rankBound (rank : Nat → Nat) : List V → Nat
+  | [] => 0
+  | v :: vs => max (match handleOf v with | some c => rank c + 1 | none => 0) (rankBound rank vs)
+
+theorem rankBound_lt (rank : Nat → Nat) : ∀ (l : List V) (v : V) (c : Nat), v ∈ l → handleOf v = some c → rank c < rankBound rank l
+  | [], _, _, hv, _ => by cases hv
+  | w :: ws, v, c, hv, hc => by
+    simp only [rankBound]
+    rcases List.mem_cons.mp hv with rfl | hv
+    · simp only [hc]; omega
+    · have := rankBound_lt rank ws v c hv hc; omega
+
+/-- a new block at the end of the heap whose handles all point to older blocks -/
+theorem Ranked.fresh {h : Heap} {b : Block} (rk : Ranked h) (hold : ∀ v ∈ bvals b, ∀ c, handleOf v = some c → c < h.length)
+    (hin : ∀ x y, Edge h x y → y < h.length) : Ranked (h ++ [some b]) := by
+  obtain ⟨rank, hr⟩ := rk
+  refine ⟨fun x => if x = h.length then rankBound rank (bvals b) else rank x, ?_⟩
+  intro x y e
+  obtain ⟨bx, hbx, v, hv, hid⟩ := e
+  by_cases hx : x = h.length
+  · subst hx
+    rw [getB_alloc_new] at hbx; cases hbx
+    have hy := hold v hv y hid
+    have : y ≠ h.length := by omega
+    simp only [this, if_false, if_true]
+    exact rankBound_lt rank _ v y hv hid
+  · have hxl : x < h.length := by
+      have := getB_lt hbx
+      simp at this; omega
+    rw [getB_append_left _ hxl] at hbx
+    have e0 : Edge h x y := ⟨bx, hbx, v, hv, hid⟩
+    have hy := hin x y e0
+    have : y ≠ h.length := by omega
+    simp only [hx, this, if_false]
+    exact hr x y e0
+
+
 /-- `T`: the values owned by the running operation (temporaries) -/
 structure Inv (σ : State) (T : List V) : Prop where
   wf : WF σ.heap (σ.slots ++ T)
   sorted : SortedHeap σ.heap
-  noself : NoSelf σ.heap
+  ranked : Ranked σ.heap
+
+theorem Inv.noself {σ : State} {T : List V} (inv : Inv σ T) : NoSelf σ.heap := inv.ranked.noself
 
 def ValidLoc (σ : State) : Loc → Prop
   | .slot k => k < σ.slots.length
@@ -774,14 +906,14 @@ theorem SameDom.validLoc {σ σ' : State} (d : SameDom σ σ') {l : Loc} (hl : V
     exact ⟨b', hb', by omega⟩
 
 theorem Inv.writeLoc {σ : State} {T : List V} {v : V} {l : Loc} (inv : Inv σ (v :: T)) (hl : ValidLoc σ l)
-    (hself : ∀ id, parentOf l = some id → handleOf v ≠ some id) :
+    (hacyc : ∀ id c, parentOf l = some id → handleOf v = some c → ¬ Reach σ.heap c id) :
     ∃ σ' old, readLoc σ l = .ok old ∧ Var.writeLoc σ l v = .ok σ' ∧ Inv σ' (old :: T) ∧ SameDom σ σ' ∧
       readLoc σ' l = .ok v := by
   cases l with
   | slot k =>
     simp only [ValidLoc] at hl
     refine ⟨{ σ with slots := σ.slots.set k v }, σ.slots[k], by simp [readLoc, hl], by simp [Var.writeLoc, hl], ?_, ?_, ?_⟩
-    · refine ⟨?_, inv.sorted, inv.noself⟩
+    · refine ⟨?_, inv.sorted, inv.ranked⟩
       apply inv.wf.congr
       · intro x hx
         simp only [List.mem_append, List.mem_cons] at hx ⊢
@@ -861,16 +993,26 @@ theorem Inv.writeLoc {σ : State} {T : List V} {v : V} {l : Loc} (inv : Inv σ (
           exact AslProofs.Map.setValAt_sorted (inv.sorted id' b hb ho) i v
         · rw [setB, getB_set_ne _ he] at hb2
           exact inv.sorted id' b2 hb2 ho
-      · intro id' b2 hb2 x hx
-        by_cases he : id' = id
-        · subst he
-          rw [getB_setB_same _ hlt] at hb2; cases hb2
-          rw [hbv] at hx
-          rcases List.mem_or_eq_of_mem_set hx with h2 | rfl
-          · exact inv.noself id' b hb x h2
-          · exact hself id' rfl
-        · rw [setB, getB_set_ne _ he] at hb2
-          exact inv.noself id' b2 hb2 x hx
+      · -- acyclicity: the only new edge is `id → handle of v`
+        cases hv : handleOf v with
+        | none =>
+          apply inv.ranked.mono
+          intro x y e
+          rcases Edge.setB hb e with ⟨_, e0⟩ | ⟨rfl, w, hw, hwy⟩
+          · exact e0
+          · rw [hbv] at hw
+            rcases List.mem_or_eq_of_mem_set hw with h2 | rfl
+            · exact ⟨b, hb, w, h2, hwy⟩
+            · rw [hv] at hwy; cases hwy
+        | some c =>
+          apply Ranked.addEdge (B := id) (c := c) _ (hacyc id c rfl hv) inv.ranked
+          intro x y e
+          rcases Edge.setB hb e with ⟨_, e0⟩ | ⟨rfl, w, hw, hwy⟩
+          · exact Or.inl e0
+          · rw [hbv] at hw
+            rcases List.mem_or_eq_of_mem_set hw with h2 | rfl
+            · exact Or.inl ⟨b, hb, w, h2, hwy⟩
+            · rw [hv] at hwy; cases hwy; exact Or.inr ⟨rfl, rfl⟩
     · refine ⟨rfl, by simp [setB], fun id' b2 hb2 => ?_⟩
       by_cases he : id' = id
       · subst he
@@ -908,7 +1050,7 @@ theorem Held.live {σ : State} {T : List V} {v : V} (inv : Inv σ T) (hv : Held 
 theorem Inv.copyLive {σ : State} {T : List V} {v : V} (inv : Inv σ T) (hv : LiveV σ.heap v) :
     ∃ h', Var.copyV σ.heap v = .ok h' ∧ Inv { σ with heap := h' } (v :: T) ∧ SameItems σ.heap h' := by
   obtain ⟨h', hc, wf', same⟩ := inv.wf.copyV hv
-  refine ⟨h', hc, ⟨?_, SortedHeap.of_sub (SubItems.of_same same) inv.sorted, NoSelf.of_sub (SubItems.of_same same) inv.noself⟩, same⟩
+  refine ⟨h', hc, ⟨?_, SortedHeap.of_sub (SubItems.of_same same) inv.sorted, Ranked.of_sub (SubItems.of_same same) inv.ranked⟩, same⟩
   apply wf'.congr
   · intro x hx; simp only [List.mem_append, List.mem_cons] at hx ⊢; rcases hx with h1 | h1 | h1 <;> simp [h1]
   · intro id; simp only [occ_append, occ_cons]; omega
@@ -916,12 +1058,12 @@ theorem Inv.copyLive {σ : State} {T : List V} {v : V} (inv : Inv σ T) (hv : Li
 theorem Inv.copyV {σ : State} {T : List V} {v : V} (inv : Inv σ T) (hv : Held σ T v) :
     ∃ h', Var.copyV σ.heap v = .ok h' ∧ Inv { σ with heap := h' } (v :: T) ∧ SameItems σ.heap h' := by
   rcases hv with hv | hv
-  · refine ⟨σ.heap, by simp [Var.copyV, hv], ⟨?_, inv.sorted, inv.noself⟩, SameItems.refl _⟩
+  · refine ⟨σ.heap, by simp [Var.copyV, hv], ⟨?_, inv.sorted, inv.ranked⟩, SameItems.refl _⟩
     apply ((WF.cons_scalar (h := σ.heap) (R := σ.slots ++ T) hv).mpr inv.wf).congr
     · intro x hx; simp only [List.mem_append, List.mem_cons] at hx ⊢; rcases hx with h1 | h1 | h1 <;> simp [h1]
     · intro id; simp only [occ_append, occ_cons]; omega
   · obtain ⟨h', hc, wf', same⟩ := inv.wf.copyV (inv.wf.liveV hv)
-    refine ⟨h', hc, ⟨?_, SortedHeap.of_sub (SubItems.of_same same) inv.sorted, NoSelf.of_sub (SubItems.of_same same) inv.noself⟩, same⟩
+    refine ⟨h', hc, ⟨?_, SortedHeap.of_sub (SubItems.of_same same) inv.sorted, Ranked.of_sub (SubItems.of_same same) inv.ranked⟩, same⟩
     apply wf'.congr
     · intro x hx; simp only [List.mem_append, List.mem_cons] at hx ⊢; rcases hx with h1 | h1 | h1 <;> simp [h1]
     · intro id; simp only [occ_append, occ_cons]; omega
@@ -933,18 +1075,18 @@ theorem Inv.drop {σ : State} {T wl : List V} (inv : Inv σ (wl ++ T)) :
     · intro x hx; simp only [List.mem_append] at hx ⊢; rcases hx with h1 | h1 | h1 <;> simp [h1]
     · intro id; simp only [occ_append]; omega
   obtain ⟨h', hd, wf', sub⟩ := wf0.drop
-  exact ⟨h', hd, ⟨wf', SortedHeap.of_sub sub inv.sorted, NoSelf.of_sub sub inv.noself⟩, sub⟩
+  exact ⟨h', hd, ⟨wf', SortedHeap.of_sub sub inv.sorted, Ranked.of_sub sub inv.ranked⟩, sub⟩
 
 theorem Inv.perm {σ : State} {T T' : List V} (inv : Inv σ T) (hm : ∀ v, v ∈ T' → v ∈ T) (hc : ∀ id, occ id T' = occ id T) :
     Inv σ T' :=
   ⟨inv.wf.congr (fun x hx => by simp only [List.mem_append] at hx ⊢; rcases hx with h1 | h1; exact Or.inl h1; exact Or.inr (hm x h1))
-    (fun id => by simp only [occ_append, hc]), inv.sorted, inv.noself⟩
+    (fun id => by simp only [occ_append, hc]), inv.sorted, inv.ranked⟩
 
 theorem Inv.scalar {σ : State} {T : List V} {v : V} (hv : handleOf v = none) : Inv σ (v :: T) ↔ Inv σ T := by
   constructor
   · intro inv; exact inv.perm (fun x hx => List.mem_cons_of_mem _ hx) (fun id => by simp [occ_cons, hv])
   · intro inv
-    refine ⟨?_, inv.sorted, inv.noself⟩
+    refine ⟨?_, inv.sorted, inv.ranked⟩
     have := (WF.cons_scalar (h := σ.heap) (R := σ.slots ++ T) hv).mpr inv.wf
     apply this.congr
     · intro x hx; simp only [List.mem_append, List.mem_cons] at hx ⊢; rcases hx with h1 | h1 | h1 <;> simp [h1]
@@ -952,9 +1094,9 @@ theorem Inv.scalar {σ : State} {T : List V} {v : V} (hv : handleOf v = none) : 
 
 /-- `storeV`: write, then release what the Var held -/
 theorem Inv.storeV {σ : State} {T : List V} {v : V} {t : Loc} (inv : Inv σ (v :: T)) (hl : ValidLoc σ t)
-    (hself : ∀ id, parentOf t = some id → handleOf v ≠ some id) :
+    (hacyc : ∀ id c, parentOf t = some id → handleOf v = some c → ¬ Reach σ.heap c id) :
     ∃ σ', Var.storeV σ t v = .ok σ' ∧ Inv σ' T ∧ σ'.slots.length = σ.slots.length := by
-  obtain ⟨σ1, old, hr, hw, inv1, dom, _⟩ := inv.writeLoc hl hself
+  obtain ⟨σ1, old, hr, hw, inv1, dom, _⟩ := inv.writeLoc hl hacyc
   obtain ⟨h', hd, inv2, _⟩ := Inv.drop (σ := σ1) (wl := [old]) (T := T) (by simpa using inv1)
   refine ⟨{ σ1 with heap := h' }, ?_, inv2, dom.1⟩
   simp [Var.storeV, hr, hw, hd]
@@ -962,7 +1104,7 @@ theorem Inv.storeV {σ : State} {T : List V} {v : V} {t : Loc} (inv : Inv σ (v 
 theorem Inv.assignScalar {σ : State} {T : List V} {v : V} {t : Loc} (inv : Inv σ T) (hl : ValidLoc σ t)
     (hv : handleOf v = none) :
     ∃ σ', Var.assignScalar σ t v = .ok σ' ∧ Inv σ' T ∧ σ'.slots.length = σ.slots.length :=
-  Inv.storeV ((Inv.scalar hv).mpr inv) hl (fun _ _ => by simp [hv])
+  Inv.storeV ((Inv.scalar hv).mpr inv) hl (fun _ _ _ h => by rw [hv] at h; cases h)
 
 theorem Inv.assignString {σ : State} {T : List V} {s : Bytes} {t : Loc} (inv : Inv σ T) (hl : ValidLoc σ t) :
     ∃ σ', Var.assignString σ t s = .ok σ' ∧ Inv σ' T ∧ σ'.slots.length = σ.slots.length := by
@@ -970,7 +1112,7 @@ theorem Inv.assignString {σ : State} {T : List V} {s : Bytes} {t : Loc} (inv : 
   have inplace : ∀ nv : V, handleOf nv = none → handleOf old = none →
       ∃ σ', Var.writeLoc σ t nv = .ok σ' ∧ Inv σ' T ∧ σ'.slots.length = σ.slots.length := by
     intro nv hnv hold
-    obtain ⟨σ1, old', hr', hw, inv1, dom, _⟩ := ((Inv.scalar hnv).mpr inv).writeLoc hl (fun _ _ => by simp [hnv])
+    obtain ⟨σ1, old', hr', hw, inv1, dom, _⟩ := ((Inv.scalar hnv).mpr inv).writeLoc hl (fun _ _ _ h => by rw [hnv] at h; cases h)
     rw [hr] at hr'; cases hr'
     exact ⟨σ1, hw, (Inv.scalar hold).mp inv1, dom.1⟩
   unfold Var.assignString
@@ -982,14 +1124,14 @@ theorem Inv.assignString {σ : State} {T : List V} {s : Bytes} {t : Loc} (inv : 
     split
     · exact inplace _ rfl rfl
     · exact inplace _ rfl rfl
-  | none => exact Inv.storeV ((Inv.scalar (by split <;> rfl)).mpr inv) hl (fun _ _ => by split <;> simp [handleOf])
-  | null => exact Inv.storeV ((Inv.scalar (by split <;> rfl)).mpr inv) hl (fun _ _ => by split <;> simp [handleOf])
-  | bool _ => exact Inv.storeV ((Inv.scalar (by split <;> rfl)).mpr inv) hl (fun _ _ => by split <;> simp [handleOf])
-  | int _ => exact Inv.storeV ((Inv.scalar (by split <;> rfl)).mpr inv) hl (fun _ _ => by split <;> simp [handleOf])
-  | num _ => exact Inv.storeV ((Inv.scalar (by split <;> rfl)).mpr inv) hl (fun _ _ => by split <;> simp [handleOf])
-  | flt _ => exact Inv.storeV ((Inv.scalar (by split <;> rfl)).mpr inv) hl (fun _ _ => by split <;> simp [handleOf])
-  | arr _ => exact Inv.storeV ((Inv.scalar (by split <;> rfl)).mpr inv) hl (fun _ _ => by split <;> simp [handleOf])
-  | obj _ => exact Inv.storeV ((Inv.scalar (by split <;> rfl)).mpr inv) hl (fun _ _ => by split <;> simp [handleOf])
+  | none => exact Inv.storeV ((Inv.scalar (by split <;> rfl)).mpr inv) hl (fun _ _ _ h => by split at h <;> cases h)
+  | null => exact Inv.storeV ((Inv.scalar (by split <;> rfl)).mpr inv) hl (fun _ _ _ h => by split at h <;> cases h)
+  | bool _ => exact Inv.storeV ((Inv.scalar (by split <;> rfl)).mpr inv) hl (fun _ _ _ h => by split at h <;> cases h)
+  | int _ => exact Inv.storeV ((Inv.scalar (by split <;> rfl)).mpr inv) hl (fun _ _ _ h => by split at h <;> cases h)
+  | num _ => exact Inv.storeV ((Inv.scalar (by split <;> rfl)).mpr inv) hl (fun _ _ _ h => by split at h <;> cases h)
+  | flt _ => exact Inv.storeV ((Inv.scalar (by split <;> rfl)).mpr inv) hl (fun _ _ _ h => by split at h <;> cases h)
+  | arr _ => exact Inv.storeV ((Inv.scalar (by split <;> rfl)).mpr inv) hl (fun _ _ _ h => by split at h <;> cases h)
+  | obj _ => exact Inv.storeV ((Inv.scalar (by split <;> rfl)).mpr inv) hl (fun _ _ _ h => by split at h <;> cases h)
 
 
 theorem SameDom.of_same {σ : State} {h' : Heap} (e : SameItems σ.heap h') : SameDom σ { σ with heap := h' } :=
@@ -1016,13 +1158,13 @@ theorem isPod_handle {v : V} (h : isPod v = true) : handleOf v = none := by
 
 /-- `operator=(const Var&)`: safe for every held source, also one stored inside the target -/
 theorem Inv.assignV {σ : State} {T : List V} {t : Loc} {src : V} (inv : Inv σ T) (hl : ValidLoc σ t) (hs : LiveV σ.heap src)
-    (hself : ∀ id, parentOf t = some id → handleOf src ≠ some id) :
+    (hacyc : ∀ id c, parentOf t = some id → handleOf src = some c → ¬ Reach σ.heap c id) :
     ∃ σ', Var.assignV σ t src = .ok σ' ∧ Inv σ' T ∧ σ'.slots.length = σ.slots.length := by
   obtain ⟨old, hr, _⟩ := readLoc_valid hl T
   have inplace : ∀ s : Bytes, handleOf old = none →
       ∃ σ', Var.writeLoc σ t (V.str s) = .ok σ' ∧ Inv σ' T ∧ σ'.slots.length = σ.slots.length := by
     intro s hold
-    obtain ⟨σ1, old', hr', hw, inv1, dom, _⟩ := ((Inv.scalar (v := V.str s) rfl).mpr inv).writeLoc hl (fun _ _ => by simp [handleOf])
+    obtain ⟨σ1, old', hr', hw, inv1, dom, _⟩ := ((Inv.scalar (v := V.str s) rfl).mpr inv).writeLoc hl (fun _ _ _ h => by cases h)
     rw [hr] at hr'; cases hr'
     exact ⟨σ1, hw, (Inv.scalar hold).mp inv1, dom.1⟩
   unfold Var.assignV
@@ -1034,7 +1176,8 @@ theorem Inv.assignV {σ : State} {T : List V} {t : Loc} {src : V} (inv : Inv σ 
   · obtain ⟨h1, hc, inv1, same⟩ := inv.copyLive hs
     simp only [hc]
     have hl1 : ValidLoc { σ with heap := h1 } t := (SameDom.of_same same).validLoc hl
-    obtain ⟨σ2, old', hr', hw, inv2, dom, _⟩ := inv1.writeLoc hl1 hself
+    obtain ⟨σ2, old', hr', hw, inv2, dom, _⟩ := inv1.writeLoc hl1
+      (fun id c hp hc r => hacyc id c hp hc ((Reach.of_same same).mp r))
     rw [readLoc_same same t hr] at hr'; cases hr'
     simp only [hw]
     by_cases hp : isPod old = true
@@ -1055,7 +1198,9 @@ theorem Inv.reitems {σ : State} {T A B : List V} {id : Nat} {b : Block} {items'
     (hcount : ∀ j, occ j (items'.map (·.2)) + occ j B = occ j (bvals b) + occ j A)
     (hmem : ∀ v, v ∈ items'.map (·.2) ++ B → handleOf v = none ∨ v ∈ bvals b ++ A)
     (hsorted : b.isObj = true → SortedItems items')
-    (hnoself : ∀ v ∈ items'.map (·.2), handleOf v ≠ some id) :
+    (a : V)
+    (hnew : ∀ v ∈ items'.map (·.2), v ∈ bvals b ∨ handleOf v = none ∨ v = a)
+    (hacyc : ∀ c, handleOf a = some c → ¬ Reach σ.heap c id) :
     Inv { σ with heap := setB σ.heap id { b with items := items', cap := cap' } } (B ++ T) := by
   have hlt := getB_lt hb
   have hbe := getB_eq.mp hb
@@ -1121,13 +1266,28 @@ theorem Inv.reitems {σ : State} {T A B : List V} {id : Nat} {b : Block} {items'
       exact hsorted ho
     · rw [setB, getB_set_ne _ he] at hb2
       exact inv.sorted id' b2 hb2 ho
-  · intro id' b2 hb2 x hx
-    by_cases he : id' = id
-    · subst he
-      rw [getB_setB_same _ hlt] at hb2; cases hb2
-      exact hnoself x hx
-    · rw [setB, getB_set_ne _ he] at hb2
-      exact inv.noself id' b2 hb2 x hx
+  · have hedges : ∀ x y, Edge (setB σ.heap id { b with items := items', cap := cap' }) x y →
+        Edge σ.heap x y ∨ (x = id ∧ handleOf a = some y) := by
+      intro x y e
+      rcases Edge.setB hb e with ⟨_, e0⟩ | ⟨rfl, w, hw, hwy⟩
+      · exact Or.inl e0
+      · rcases hnew w hw with h1 | h1 | h1
+        · exact Or.inl ⟨b, hb, w, h1, hwy⟩
+        · rw [h1] at hwy; cases hwy
+        · subst h1; exact Or.inr ⟨rfl, hwy⟩
+    cases ha : handleOf a with
+    | none =>
+      apply inv.ranked.mono
+      intro x y e
+      rcases hedges x y e with e0 | ⟨_, h1⟩
+      · exact e0
+      · rw [ha] at h1; cases h1
+    | some c =>
+      apply Ranked.addEdge (B := id) (c := c) _ (hacyc c ha) inv.ranked
+      intro x y e
+      rcases hedges x y e with e0 | ⟨h0, h1⟩
+      · exact Or.inl e0
+      · rw [ha] at h1; cases h1; exact Or.inr ⟨h0, rfl⟩
 
 theorem handleOf_mkHandle (o : Bool) (n : Nat) : handleOf (mkHandle o n) = some n := by
   unfold mkHandle; split <;> rfl
@@ -1206,18 +1366,12 @@ theorem Inv.alloc {σ : State} {T : List V} {b : Block} (inv : Inv σ (bvals b +
         simp at this; omega
       rw [getB_append_left _ hlt] at hb2
       exact inv.sorted id' b2 hb2 ho
-  · intro id' b2 hb2 x hx
-    by_cases he : id' = σ.heap.length
-    · subst he
-      rw [getB_alloc_new] at hb2; cases hb2
-      intro e
-      have := hlive x (Or.inl (by simp [hx])) _ e
-      omega
-    · have hlt : id' < σ.heap.length := by
-        have := getB_lt hb2
-        simp at this; omega
-      rw [getB_append_left _ hlt] at hb2
-      exact inv.noself id' b2 hb2 x hx
+  · apply inv.ranked.fresh
+    · intro v hv c hc
+      exact hlive v (Or.inl (by simp [hv])) c hc
+    · intro x y e
+      obtain ⟨bx, hbx, v, hv, hid⟩ := e
+      exact hlive v (Or.inr (mem_hvals_of_getB hbx hv)) y hid
 
 
 
@@ -1327,13 +1481,21 @@ theorem Inv.moveBlock {σ : State} {T : List V} {id : Nat} {b : Block} (newcap :
     rcases liveCases j b2 hb2 with ⟨hj, hb2e⟩ | ⟨hji, hjl, hb2o⟩
     · subst hb2e; exact inv.sorted id b hb ho
     · exact inv.sorted j b2 hb2o ho
-  · intro j b2 hb2 x hx
-    rcases liveCases j b2 hb2 with ⟨hj, hb2e⟩ | ⟨hji, hjl, hb2o⟩
+  · -- the moved block keeps its rank; nothing else changes
+    apply inv.ranked.rename (fun x => if x = σ.heap.length then id else x)
+    intro x y e
+    obtain ⟨bx, hbx, v, hv, hid⟩ := e
+    rcases liveCases x bx hbx with ⟨hj, hb2e⟩ | ⟨hji, hjl, hb2o⟩
     · subst hb2e; subst hj
-      intro e
-      have := hlive x (Or.inr (mem_hvals_of_getB hb hx)) _ e
-      omega
-    · exact inv.noself j b2 hb2o x hx
+      have hy := hlive v (Or.inr (mem_hvals_of_getB hb hv)) y hid
+      have hyn : y ≠ σ.heap.length := by omega
+      simp only [if_true, hyn, if_false]
+      exact ⟨b, hb, v, hv, hid⟩
+    · have hy := hlive v (Or.inr (mem_hvals_of_getB hb2o hv)) y hid
+      have hyn : y ≠ σ.heap.length := by omega
+      have hxn : x ≠ σ.heap.length := by omega
+      simp only [hxn, hyn, if_false]
+      exact ⟨bx, hb2o, v, hv, hid⟩
 
 
 theorem setValAt_setValAt : ∀ (l : List (Bytes × V)) (i : Nat) (a c : V),
@@ -1362,6 +1524,37 @@ theorem ValidLoc.parent_ne {σ : State} {T : List V} (inv : Inv σ T) {l : Loc} 
           rw [← hr]; exact List.mem_map_of_mem (List.mem_of_getElem? hi)
         exact inv.noself P bP hb v hm hv
 
+/-- edges of a heap in which block `id` was moved to the end -/
+theorem edge_moved {h0 : Heap} {id newcap : Nat} {b : Block} (hb : getB h0 id = .ok b) {x y : Nat}
+    (e : Edge ((h0.set id none) ++ [some { b with cap := newcap }]) x y) :
+    (x = h0.length ∧ Edge h0 id y) ∨ (x ≠ id ∧ x < h0.length ∧ Edge h0 x y) := by
+  obtain ⟨bx, hbx, v, hv, hid⟩ := e
+  have hlen : (h0.set id none).length = h0.length := by simp
+  by_cases hx : x = h0.length
+  · subst hx
+    have := getB_alloc_new (h0.set id none) { b with cap := newcap }
+    rw [hlen] at this
+    rw [this] at hbx; cases hbx
+    exact Or.inl ⟨rfl, b, hb, v, hv, hid⟩
+  · have hxl : x < h0.length := by
+      have := getB_lt hbx
+      simp at this; omega
+    rw [getB_append_left _ (by simpa using hxl)] at hbx
+    by_cases hxi : x = id
+    · subst hxi; exact absurd hbx (getB_freeB_same bx)
+    · rw [getB_set_ne _ hxi] at hbx
+      exact Or.inr ⟨hxi, hxl, bx, hbx, v, hv, hid⟩
+
+/-- overwriting an element with a value that is not a handle removes edges only -/
+theorem edge_setScalar {h : Heap} {P i : Nat} {bP : Block} {w : V} (hbP : getB h P = .ok bP) (hw : handleOf w = none)
+    {x y : Nat} (e : Edge (setB h P { bP with items := Map.setValAt bP.items i w }) x y) : Edge h x y := by
+  rcases Edge.setB hbP e with ⟨_, e0⟩ | ⟨rfl, v, hv, hvy⟩
+  · exact e0
+  · simp only [bvals, map_snd_setValAt] at hv
+    rcases List.mem_or_eq_of_mem_set hv with h2 | rfl
+    · exact ⟨bP, hbP, v, h2, hvy⟩
+    · rw [hw] at hvy; cases hvy
+
 theorem relocate_unfold {σ : State} {l : Loc} {id newcap : Nat} {b : Block} (guard : Bool)
     (hb : getB σ.heap id = .ok b) (hrc : b.rc = 1) :
     Var.relocate guard σ l id newcap =
@@ -1383,7 +1576,13 @@ theorem Inv.relocate {σ : State} {T : List V} {l : Loc} {id newcap : Nat} {b : 
       σ'.slots.length = σ.slots.length ∧ ValidLoc σ' l ∧
       readLoc σ' l = .ok (mkHandle b.isObj σ.heap.length) ∧
       getB σ'.heap σ.heap.length = .ok { b with cap := newcap } ∧
-      (∀ v, LiveV σ.heap v → handleOf v ≠ some id → LiveV σ'.heap v) := by
+      (∀ v, LiveV σ.heap v → handleOf v ≠ some id → LiveV σ'.heap v) ∧
+      (∀ x y, Edge σ'.heap x y →
+        Edge σ.heap (if x = σ.heap.length then id else x) (if y = σ.heap.length then id else y)) := by
+  have hliveE : ∀ x y, Edge σ.heap x y → y < σ.heap.length := by
+    intro x y e
+    obtain ⟨bx, hbx, v, hv, hid⟩ := e
+    exact inv.wf.handle_lt (Or.inr (mem_hvals_of_getB hbx hv)) hid
   have hlt := getB_lt hb
   have hpar := ValidLoc.parent_ne inv hr (handleOf_mkHandle _ _)
   have moved : ∀ (h0 : Heap) (v : V), h0.length = σ.heap.length → LiveV h0 v → handleOf v ≠ some id →
@@ -1398,30 +1597,39 @@ theorem Inv.relocate {σ : State} {T : List V} {l : Loc} {id newcap : Nat} {b : 
     simp only [ValidLoc] at hl
     -- 1. take the handle out of the Var, 2. move the block, 3. put the new handle in
     obtain ⟨σa, old, hra, hwa, inva, doma, _⟩ :=
-      ((Inv.scalar (v := V.none) rfl).mpr inv).writeLoc (l := .slot k) hl (fun _ _ => by simp [handleOf])
+      ((Inv.scalar (v := V.none) rfl).mpr inv).writeLoc (l := .slot k) hl (fun _ _ _ h => by cases h)
     rw [hr] at hra; cases hra
     simp only [Var.writeLoc, hl, if_true, Except.ok.injEq] at hwa
     subst hwa
     have invb := Inv.moveBlock newcap inva hb hrc
     have hlb : ValidLoc { heap := (σ.heap.set id none) ++ [some { b with cap := newcap }], slots := σ.slots.set k V.none } (.slot k) := by
       simp [ValidLoc, hl]
-    obtain ⟨σc, old2, hrc2, hwc, invc, domc, hrc3⟩ := invb.writeLoc hlb (fun _ hP => by simp [parentOf] at hP)
+    obtain ⟨σc, old2, hrc2, hwc, invc, domc, hrc3⟩ := invb.writeLoc hlb (fun _ _ hP => by simp [parentOf] at hP)
     simp only [readLoc, List.getElem?_set_self hl, Except.ok.injEq] at hrc2
     subst hrc2
     simp only [Var.writeLoc, List.length_set, hl, if_true, List.set_set, Except.ok.injEq] at hwc
     subst hwc
     simp only [Var.writeLoc, hl, if_true]
-    refine ⟨_, rfl, (Inv.scalar rfl).mp invc, by simp, by simp [ValidLoc, hl], by simp [readLoc, hl], ?_, ?_⟩
+    refine ⟨_, rfl, (Inv.scalar rfl).mp invc, by simp, by simp [ValidLoc, hl], by simp [readLoc, hl], ?_, ?_, ?_⟩
     · have := getB_alloc_new (σ.heap.set id none) { b with cap := newcap }
       simpa using this
     · intro v hv hne
       exact moved σ.heap v rfl hv hne
+    · intro x y e
+      rcases edge_moved hb e with ⟨hx, e0⟩ | ⟨_, hxl, e0⟩
+      · have hy := hliveE _ _ e0
+        have hyn : y ≠ σ.heap.length := by omega
+        simp only [hx, if_true, hyn, if_false]; exact e0
+      · have hy := hliveE _ _ e0
+        have hyn : y ≠ σ.heap.length := by omega
+        have hxn : x ≠ σ.heap.length := by omega
+        simp only [hxn, hyn, if_false]; exact e0
   | item P i =>
     have hPi : P ≠ id := by intro e; exact hpar (by simp [parentOf, e])
     obtain ⟨bP, hbP, hi⟩ := hl
     have hPlt := getB_lt hbP
     obtain ⟨σa, old, hra, hwa, inva, doma, _⟩ :=
-      ((Inv.scalar (v := V.none) rfl).mpr inv).writeLoc (l := .item P i) ⟨bP, hbP, hi⟩ (fun _ _ => by simp [handleOf])
+      ((Inv.scalar (v := V.none) rfl).mpr inv).writeLoc (l := .item P i) ⟨bP, hbP, hi⟩ (fun _ _ _ h => by cases h)
     rw [hr] at hra; cases hra
     simp only [Var.writeLoc, hbP, hi, if_true, Except.ok.injEq] at hwa
     subst hwa
@@ -1434,11 +1642,48 @@ theorem Inv.relocate {σ : State} {T : List V} {l : Loc} {id newcap : Nat} {b : 
       exact getB_setB_same _ hPlt
     have hi2 : i < (Map.setValAt bP.items i V.none).length := by rw [AslProofs.Map.setValAt_length]; exact hi
     obtain ⟨σc, old2, hrc2, hwc, invc, domc, hrc3⟩ := invb.writeLoc (l := .item P i) ⟨_, g2, hi2⟩ (by
-      intro P' hP'; rw [handleOf_mkHandle]
+      -- a path from the moved block back to the block of `l` would be, in the original heap, a cycle through `l`
+      intro P' c hP' hc r
+      rw [handleOf_mkHandle] at hc
       simp only [parentOf, Option.some.injEq] at hP'; subst hP'
-      intro e
-      have e' := Option.some.inj e
-      simp [setB] at e'
+      have hc' := Option.some.inj hc
+      have hlen1' : (setB σ.heap P { bP with items := Map.setValAt bP.items i V.none }).length = σ.heap.length := by simp [setB]
+      have hlive : ∀ x y, Edge σ.heap x y → y < σ.heap.length := by
+        intro x y e
+        obtain ⟨bx, hbx, v, hv, hid⟩ := e
+        exact inv.wf.handle_lt (Or.inr (mem_hvals_of_getB hbx hv)) hid
+      have hmap : ∀ x y, Edge ((setB σ.heap P { bP with items := Map.setValAt bP.items i V.none }).set id none ++
+            [some { b with cap := newcap }]) x y →
+          Edge σ.heap (if x = σ.heap.length then id else x) (if y = σ.heap.length then id else y) := by
+        intro x y e
+        rcases edge_moved hba e with ⟨hx, e0⟩ | ⟨_, hxl, e0⟩
+        · have e1 := edge_setScalar hbP rfl e0
+          have hy := hlive _ _ e1
+          have hyn : y ≠ σ.heap.length := by omega
+          rw [hlen1'] at hx
+          simp only [hx, if_true, hyn, if_false]
+          exact e1
+        · have e1 := edge_setScalar hbP rfl e0
+          have hy := hlive _ _ e1
+          have hyn : y ≠ σ.heap.length := by omega
+          have hxn : x ≠ σ.heap.length := by rw [hlen1'] at hxl; omega
+          simp only [hxn, hyn, if_false]
+          exact e1
+      have r' := Reach.rename _ hmap r
+      rw [← hc'] at r'
+      have hPn : P ≠ σ.heap.length := by omega
+      simp only [hlen1', if_true, hPn, if_false] at r'
+      obtain ⟨rank, hrk⟩ := inv.ranked
+      have h1 := Reach.rank_le hrk r'
+      have hedge : Edge σ.heap P id := by
+        refine ⟨bP, hbP, mkHandle b.isObj id, ?_, handleOf_mkHandle _ _⟩
+        simp only [readLoc, hbP] at hr
+        cases hi' : bP.items[i]? with
+        | none => simp [hi'] at hr
+        | some kv =>
+          simp only [hi', Except.ok.injEq] at hr
+          rw [← hr]; exact List.mem_map_of_mem (List.mem_of_getElem? hi')
+      have h2 := hrk _ _ hedge
       omega)
     have hold2 : old2 = V.none := by
       simp only [readLoc, g2] at hrc2
@@ -1474,7 +1719,7 @@ theorem Inv.relocate {σ : State} {T : List V} {l : Loc} {id newcap : Nat} {b : 
         · rw [List.getElem?_append_right (by simp; omega), List.getElem?_append_right (by simp; omega)]
           simp
     rw [← hσc]
-    refine ⟨σc, rfl, (Inv.scalar rfl).mp invc, ?_, ?_, ?_, ?_, ?_⟩
+    refine ⟨σc, rfl, (Inv.scalar rfl).mp invc, ?_, ?_, ?_, ?_, ?_, ?_⟩
     · rw [domc.1]
     · exact domc.validLoc ⟨_, g2, hi2⟩
     · rw [hlen1] at hrc3; exact hrc3
@@ -1486,6 +1731,37 @@ theorem Inv.relocate {σ : State} {T : List V} {l : Loc} {id newcap : Nat} {b : 
       simpa using this
     · intro v hv hne
       exact domc.liveV (moved _ v hlen1 (doma.liveV hv) hne)
+    · intro x y e
+      rw [hσc] at e
+      have hedgeP : Edge σ.heap P id := by
+        refine ⟨bP, hbP, mkHandle b.isObj id, ?_, handleOf_mkHandle _ _⟩
+        simp only [readLoc, hbP] at hr
+        cases hi' : bP.items[i]? with
+        | none => simp [hi'] at hr
+        | some kv =>
+          simp only [hi', Except.ok.injEq] at hr
+          rw [← hr]; exact List.mem_map_of_mem (List.mem_of_getElem? hi')
+      have hPn : P ≠ σ.heap.length := by omega
+      rcases Edge.setB g1 e with ⟨hxP, e0⟩ | ⟨rfl, w, hw, hwy⟩
+      · rcases edge_moved hb e0 with ⟨hx, e1⟩ | ⟨_, hxl, e1⟩
+        · have hy := hliveE _ _ e1
+          have hyn : y ≠ σ.heap.length := by omega
+          simp only [hx, if_true, hyn, if_false]; exact e1
+        · have hy := hliveE _ _ e1
+          have hyn : y ≠ σ.heap.length := by omega
+          have hxn : x ≠ σ.heap.length := by omega
+          simp only [hxn, hyn, if_false]; exact e1
+      · simp only [bvals, map_snd_setValAt] at hw
+        simp only [hPn, if_false]
+        rcases List.mem_or_eq_of_mem_set hw with h2 | rfl
+        · have e1 : Edge σ.heap x y := ⟨bP, hbP, w, h2, hwy⟩
+          have hy := hliveE _ _ e1
+          have hyn : y ≠ σ.heap.length := by omega
+          simp only [hyn, if_false]; exact e1
+        · rw [handleOf_mkHandle] at hwy
+          have := Option.some.inj hwy
+          subst this
+          simp only [if_true]; exact hedgeP
 
 
 /-! ## growth: reserve, insert, resize -/
@@ -1498,6 +1774,7 @@ structure Grown (σ σ' : State) (l : Loc) (b : Block) (id id' : Nat) : Prop whe
   blk : ∃ b', getB σ'.heap id' = .ok b' ∧ b'.items = b.items ∧ b'.isObj = b.isObj
   keeps : ∀ v, LiveV σ.heap v → handleOf v ≠ some id → LiveV σ'.heap v
   fresh : id' = id ∨ id' = σ.heap.length
+  edges : ∀ x y, Edge σ'.heap x y → Edge σ.heap (if x = id' then id else x) (if y = id' then id else y)
 
 theorem relocate_refused {σ : State} {l : Loc} {id newcap : Nat} {b : Block}
     (hb : getB σ.heap id = .ok b) (hrc : b.rc > 1) : Var.relocate true σ l id newcap = .error .sharedGrowth := by
@@ -1513,12 +1790,15 @@ theorem Inv.growTo {σ : State} {T : List V} {l : Loc} {id newcap : Nat} {b : Bl
   · exact Or.inl (relocate_refused hb hrc)
   · have hpos := inv.wf.pos id b hb
     have hrc1 : b.rc = 1 := by omega
-    obtain ⟨σ', hrel, inv', hs, hv, hrd, hg, hkeep⟩ := inv.relocate (newcap := newcap) true hl hr hb hrc1
-    exact Or.inr ⟨σ', _, hrel, inv', ⟨hs, hv, hrd, ⟨_, hg, rfl, rfl⟩, hkeep, Or.inr rfl⟩, _, hg, rfl, rfl⟩
+    obtain ⟨σ', hrel, inv', hs, hv, hrd, hg, hkeep, hedges⟩ := inv.relocate (newcap := newcap) true hl hr hb hrc1
+    exact Or.inr ⟨σ', _, hrel, inv', ⟨hs, hv, hrd, ⟨_, hg, rfl, rfl⟩, hkeep, Or.inr rfl, hedges⟩, _, hg, rfl, rfl⟩
 
 theorem Grown.refl {σ : State} {l : Loc} {b : Block} {id : Nat} (hl : ValidLoc σ l)
     (hr : readLoc σ l = .ok (mkHandle b.isObj id)) (hb : getB σ.heap id = .ok b) : Grown σ σ l b id id :=
-  ⟨rfl, hl, hr, ⟨b, hb, rfl, rfl⟩, fun _ hv _ => hv, Or.inl rfl⟩
+  ⟨rfl, hl, hr, ⟨b, hb, rfl, rfl⟩, fun _ hv _ => hv, Or.inl rfl, fun x y e => by
+    have hx : (if x = id then id else x) = x := by split <;> simp_all
+    have hy : (if y = id then id else y) = y := by split <;> simp_all
+    rw [hx, hy]; exact e⟩
 
 theorem Inv.reserveAt {σ : State} {T : List V} {l : Loc} {id m : Nat} {b : Block}
     (inv : Inv σ T) (hl : ValidLoc σ l) (hr : readLoc σ l = .ok (mkHandle b.isObj id)) (hb : getB σ.heap id = .ok b) :
@@ -1617,13 +1897,15 @@ theorem Inv.resizeGrow {σ : State} {T : List V} {l : Loc} {id m : Nat} {b : Blo
           · simp only [List.map_replicate, List.mem_replicate] at h2
             left; rw [h2.2]; rfl)
         (by intro ho; rw [e2', harr] at ho; cases ho)
+        V.none
         (by
           intro v hv
           simp only [List.map_append, List.mem_append] at hv
           rcases hv with h2 | h2
-          · exact noself_of_block inv1 hb1 v h2
+          · exact Or.inl h2
           · simp only [List.map_replicate, List.mem_replicate] at h2
-            rw [h2.2]; simp [handleOf])
+            right; left; rw [h2.2]; rfl)
+        (by intro c hc; cases hc)
       rw [e1] at invr
       refine ⟨_, id1, rfl, by simpa using invr, g.slots, validLoc_setB_ne _ hpar g.valid, ?_, _, getB_setB_same _ hlt1, ?_, ?_⟩
       · rw [readLoc_setB_ne _ hpar]; exact g.read
@@ -1681,12 +1963,14 @@ theorem Inv.resizeAny {σ : State} {T : List V} {l : Loc} {id m : Nat} {b : Bloc
         (by
           intro ho
           exact List.Pairwise.sublist (List.take_sublist m b1.items) (inv1.sorted id1 b1 hb1 ho))
+        V.none
         (by
           intro v hv
-          exact noself_of_block inv1 hb1 v (by
-            rw [List.mem_map] at hv ⊢
-            obtain ⟨kv, hkv, e⟩ := hv
-            exact ⟨kv, List.mem_of_mem_take hkv, e⟩))
+          left
+          rw [List.mem_map] at hv
+          obtain ⟨kv, hkv, e⟩ := hv
+          rw [← e]; exact List.mem_map_of_mem (List.mem_of_mem_take hkv))
+        (by intro c hc; cases hc)
       obtain ⟨h', hd, inv', _⟩ := Inv.drop (wl := (b1.items.drop m).map (·.2)) (T := T) invr
       rw [e1] at hd
       simp only [hd, pure, Except.pure]
@@ -1725,7 +2009,8 @@ theorem Inv.indexKey {σ : State} {T : List V} {l : Loc} {id : Nat} {k : Bytes} 
     Var.indexKey true σ l id k = .error .sharedGrowth ∨
     ∃ σ' id' p, Var.indexKey true σ l id k = .ok (σ', .item id' p) ∧ Inv σ' T ∧ σ'.slots.length = σ.slots.length ∧
       ValidLoc σ' l ∧ readLoc σ' l = .ok (.obj id') ∧ ValidLoc σ' (.item id' p) ∧
-      (∀ v, LiveV σ.heap v → handleOf v ≠ some id → LiveV σ'.heap v) ∧ (id' = id ∨ id' = σ.heap.length) := by
+      (∀ v, LiveV σ.heap v → handleOf v ≠ some id → LiveV σ'.heap v) ∧ (id' = id ∨ id' = σ.heap.length) ∧
+      (∀ x y, Edge σ'.heap x y → Edge σ.heap (if x = id' then id else x) (if y = id' then id else y)) := by
   have hsort := inv.sorted id b hb ho
   obtain ⟨r, hidx, hspec⟩ := AslProofs.Map.indexOf_spec cmpB_strict b.items k hsort
   have hr' : readLoc σ l = .ok (mkHandle b.isObj id) := by rw [ho]; exact hr
@@ -1735,7 +2020,10 @@ theorem Inv.indexKey {σ : State} {T : List V} {l : Loc} {id : Nat} {k : Bytes} 
   · right
     simp only [hr0, if_true, pure, Except.pure]
     obtain ⟨hlt, _⟩ := hspec.1 hr0
-    exact ⟨σ, id, r.toNat, rfl, inv, rfl, hl, hr, ⟨b, hb, hlt⟩, fun _ hv _ => hv, Or.inl rfl⟩
+    exact ⟨σ, id, r.toNat, rfl, inv, rfl, hl, hr, ⟨b, hb, hlt⟩, fun _ hv _ => hv, Or.inl rfl, fun x y e => by
+      have hx : (if x = id then id else x) = x := by split <;> simp_all
+      have hy : (if y = id then id else y) = y := by split <;> simp_all
+      rw [hx, hy]; exact e⟩
   · simp only [hr0, if_false]
     obtain ⟨hp, hlo, hhi⟩ := hspec.2 (by omega)
     rcases inv.growInsertAt hl hr' hb with h1 | ⟨σ1, id1, h1, inv1, g⟩
@@ -1761,14 +2049,16 @@ theorem Inv.indexKey {σ : State} {T : List V} {l : Loc} {id : Nat} {k : Bytes} 
           intro _
           rw [e1]
           exact AslProofs.Map.insertAt_sorted cmpB_strict hsort _ k V.none hlo hhi)
+        V.none
         (by
           intro v hv
           simp only [List.mem_map] at hv
           obtain ⟨y, hy, e⟩ := hv
           rcases mem_insertAt hy with h2 | h2
-          · rw [← e, h2]; simp [handleOf]
-          · exact noself_of_block inv1 hb1 v (by rw [← e]; exact List.mem_map_of_mem h2))
-      refine ⟨_, id1, (-r - 1).toNat, rfl, by simpa using invr, g.slots, validLoc_setB_ne _ hpar g.valid, ?_, ?_, ?_, g.fresh⟩
+          · right; left; rw [← e, h2]; rfl
+          · left; rw [← e]; exact List.mem_map_of_mem h2)
+        (by intro c hc; cases hc)
+      refine ⟨_, id1, (-r - 1).toNat, rfl, by simpa using invr, g.slots, validLoc_setB_ne _ hpar g.valid, ?_, ?_, ?_, g.fresh, ?_⟩
       · rw [readLoc_setB_ne _ hpar]; exact hread1
       · refine ⟨_, getB_setB_same _ hlt1, ?_⟩
         simp only []
@@ -1776,6 +2066,15 @@ theorem Inv.indexKey {σ : State} {T : List V} {l : Loc} {id : Nat} {k : Bytes} 
         rw [e1]; omega
       · intro v hv hne
         exact liveV_setB (b' := { b1 with items := Map.insertAt b1.items (-r - 1).toNat (k, V.none) }) hb1 rfl (g.keeps v hv hne)
+      · intro x y e
+        apply g.edges
+        rcases Edge.setB hb1 e with ⟨_, e0⟩ | ⟨rfl, w, hw, hwy⟩
+        · exact e0
+        · simp only [bvals, List.mem_map] at hw
+          obtain ⟨kv, hkv, rfl⟩ := hw
+          rcases mem_insertAt hkv with h2 | h2
+          · rw [h2] at hwy; cases hwy
+          · exact ⟨b1, hb1, kv.2, List.mem_map_of_mem h2, hwy⟩
 
 
 
@@ -1796,22 +2095,36 @@ theorem readLoc_append {σ : State} {l : Loc} (x : Heap) (hl : ValidLoc σ l) :
     simp only [readLoc]
     rw [getB_append_left _ (getB_lt hbP)]
 
+/-- nothing is reachable from a block without elements except the block itself -/
+theorem reach_from_leaf {h : Heap} {N z : Nat} {b : Block} (hb : getB h N = .ok b) (he : b.items = [])
+    (r : Reach h N z) : z = N := by
+  cases r with
+  | refl _ => rfl
+  | step e _ =>
+    obtain ⟨b', hb', v, hv, _⟩ := e
+    rw [hb] at hb'; cases hb'
+    simp [bvals, he] at hv
+
 /-- an undefined Var becomes an empty array / object -/
 theorem Inv.vivify {σ : State} {T : List V} {l : Loc} (o : Bool) (inv : Inv σ T) (hl : ValidLoc σ l)
     (hr : readLoc σ l = .ok V.none) :
     ∃ σ1, Var.writeLoc { σ with heap := σ.heap ++ [some (emptyBlock o)] } l (mkHandle o σ.heap.length) = .ok σ1 ∧
       Inv σ1 T ∧ σ1.slots.length = σ.slots.length ∧ ValidLoc σ1 l ∧
       readLoc σ1 l = .ok (mkHandle o σ.heap.length) ∧ getB σ1.heap σ.heap.length = .ok (emptyBlock o) ∧
-      (∀ v, LiveV σ.heap v → LiveV σ1.heap v) := by
+      (∀ v, LiveV σ.heap v → LiveV σ1.heap v) ∧
+      (∀ x y, Edge σ1.heap x y → Edge σ.heap x y ∨ (parentOf l = some x ∧ y = σ.heap.length)) := by
   have inv0 := Inv.alloc (σ := σ) (T := T) (b := emptyBlock o) (by simpa [bvals, emptyBlock] using inv) rfl
     (by intro _; simp [emptyBlock, SortedItems, AslProofs.Map.Sorted])
   have hl0 := validLoc_append [some (emptyBlock o)] hl
   have e0 : (emptyBlock o).isObj = o := rfl
   rw [e0] at inv0
   obtain ⟨σ1, old, hr1, hw, inv1, dom, hr2⟩ := inv0.writeLoc hl0 (by
-    intro P hP; rw [handleOf_mkHandle]
-    intro e
-    have e' := Option.some.inj e
+    -- the new block has no elements: nothing is reachable from it
+    intro P c hP hc r
+    rw [handleOf_mkHandle] at hc
+    have hc' := Option.some.inj hc
+    subst hc'
+    have := reach_from_leaf (getB_alloc_new σ.heap (emptyBlock o)) rfl r
     cases l with
     | slot k => simp [parentOf] at hP
     | item P' i =>
@@ -1826,22 +2139,54 @@ theorem Inv.vivify {σ : State} {T : List V} {l : Loc} (o : Bool) (inv : Inv σ 
     intro j hj
     obtain ⟨bj, hbj, hk⟩ := hv j hj
     exact ⟨bj, by show getB (σ.heap ++ _) j = _; rw [getB_append_left _ (getB_lt hbj)]; exact hbj, hk⟩
-  refine ⟨σ1, hw, (Inv.scalar rfl).mp inv1, dom.1, dom.validLoc hl0, hr2, ?_, hkeep⟩
+  have hedge0 : ∀ x y, Edge (σ.heap ++ [some (emptyBlock o)]) x y → Edge σ.heap x y := by
+    intro x y e
+    obtain ⟨bx, hbx, v, hv, hid⟩ := e
+    by_cases hx : x = σ.heap.length
+    · subst hx
+      rw [getB_alloc_new] at hbx; cases hbx
+      simp [bvals, emptyBlock] at hv
+    · have hxl : x < σ.heap.length := by
+        have := getB_lt hbx
+        simp at this; omega
+      rw [getB_append_left _ hxl] at hbx
+      exact ⟨bx, hbx, v, hv, hid⟩
+  refine ⟨σ1, hw, (Inv.scalar rfl).mp inv1, dom.1, dom.validLoc hl0, hr2, ?_, hkeep, ?_⟩
   -- the new block is not the one written to
-  cases l with
-  | slot k =>
-    simp only [Var.writeLoc] at hw
-    split at hw
-    · cases hw; exact getB_alloc_new _ _
-    · cases hw
-  | item P i =>
-    obtain ⟨bP, hbP, hi⟩ := hl
-    have hPlt := getB_lt hbP
-    simp only [Var.writeLoc, getB_append_left _ hPlt, hbP, hi, if_true] at hw
-    cases hw
-    simp only [setB]
-    rw [getB_set_ne _ (by omega)]
-    exact getB_alloc_new _ _
+  · cases l with
+    | slot k =>
+      simp only [Var.writeLoc] at hw
+      split at hw
+      · cases hw; exact getB_alloc_new _ _
+      · cases hw
+    | item P i =>
+      obtain ⟨bP, hbP, hi⟩ := hl
+      have hPlt := getB_lt hbP
+      simp only [Var.writeLoc, getB_append_left _ hPlt, hbP, hi, if_true] at hw
+      cases hw
+      simp only [setB]
+      rw [getB_set_ne _ (by omega)]
+      exact getB_alloc_new _ _
+  · intro x y e
+    cases l with
+    | slot k =>
+      simp only [Var.writeLoc] at hw
+      split at hw
+      · cases hw; exact Or.inl (hedge0 x y e)
+      · cases hw
+    | item P i =>
+      obtain ⟨bP, hbP, hi⟩ := hl
+      have hPlt := getB_lt hbP
+      have hbP0 : getB (σ.heap ++ [some (emptyBlock o)]) P = .ok bP := by rw [getB_append_left _ hPlt]; exact hbP
+      simp only [Var.writeLoc, hbP0, hi, if_true] at hw
+      cases hw
+      rcases Edge.setB hbP0 e with ⟨_, e0⟩ | ⟨rfl, w, hw', hwy⟩
+      · exact Or.inl (hedge0 x y e0)
+      · simp only [bvals, map_snd_setValAt] at hw'
+        rcases List.mem_or_eq_of_mem_set hw' with h2 | rfl
+        · exact Or.inl ⟨bP, hbP, w, h2, hwy⟩
+        · rw [handleOf_mkHandle] at hwy
+          exact Or.inr ⟨rfl, (Option.some.inj hwy).symm⟩
 
 /-- one application of the non-const `operator[]` -/
 theorem Inv.stepMut {σ : State} {T : List V} {l : Loc} (s : Step) (inv : Inv σ T) (hl : ValidLoc σ l) :
@@ -1873,7 +2218,7 @@ theorem Inv.stepMut {σ : State} {T : List V} {l : Loc} (s : Step) (inv : Inv σ
       simp only []
       obtain ⟨b, hb, hk⟩ := inv.wf.live _ hheld id rfl
       simp only [isObjV] at hk
-      rcases inv.indexKey (k := natDigits i) hl hr hb hk with h1 | ⟨σ', id', p, h1, inv', hs, _, _, hv, _⟩
+      rcases inv.indexKey (k := natDigits i) hl hr hb hk with h1 | ⟨σ', id', p, h1, inv', hs, _, _, hv, _, _, _⟩
       · left; exact ⟨_, h1, Or.inl rfl⟩
       · right; exact ⟨σ', _, h1, inv', hs, hv⟩
     | none =>
@@ -1902,14 +2247,14 @@ theorem Inv.stepMut {σ : State} {T : List V} {l : Loc} (s : Step) (inv : Inv σ
       obtain ⟨σ1, hw, inv1, hs1, hl1, hr1, hb1, _⟩ := inv.vivify true hl hr
       rw [mkHandle_true] at hw hr1
       simp only [hw]
-      rcases inv1.indexKey (k := k) hl1 hr1 hb1 rfl with h1 | ⟨σ', id', p, h1, inv', hs, _, _, hv, _⟩
+      rcases inv1.indexKey (k := k) hl1 hr1 hb1 rfl with h1 | ⟨σ', id', p, h1, inv', hs, _, _, hv, _, _, _⟩
       · left; exact ⟨_, h1, Or.inl rfl⟩
       · right; exact ⟨σ', _, h1, inv', by rw [hs, hs1], hv⟩
     | obj id =>
       simp only []
       obtain ⟨b, hb, hk⟩ := inv.wf.live _ hheld id rfl
       simp only [isObjV] at hk
-      rcases inv.indexKey (k := k) hl hr hb hk with h1 | ⟨σ', id', p, h1, inv', hs, _, _, hv, _⟩
+      rcases inv.indexKey (k := k) hl hr hb hk with h1 | ⟨σ', id', p, h1, inv', hs, _, _, hv, _, _, _⟩
       · left; exact ⟨_, h1, Or.inl rfl⟩
       · right; exact ⟨σ', _, h1, inv', hs, hv⟩
     | arr _ => left; exact ⟨_, rfl, Or.inr rfl⟩
@@ -2026,28 +2371,54 @@ theorem Inv.cget {σ : State} {T : List V} (inv : Inv σ T) (q : Path) :
 
 /-- push an owned value at the end of array block `id` -/
 theorem Inv.push {σ : State} {T : List V} {id : Nat} {b : Block} {src : V} (inv : Inv σ (src :: T))
-    (hb : getB σ.heap id = .ok b) (harr : b.isObj = false) (hne : handleOf src ≠ some id) :
+    (hb : getB σ.heap id = .ok b) (harr : b.isObj = false) (hacyc : ∀ c, handleOf src = some c → ¬ Reach σ.heap c id) :
     Inv { σ with heap := setB σ.heap id { b with items := b.items ++ [([], src)] } } T := by
   have := Inv.reitems (σ := σ) (T := T) (A := [src]) (B := []) (id := id) (b := b)
     (items' := b.items ++ [([], src)]) (cap' := b.cap) (by simpa using inv) hb
     (by intro j; simp only [List.map_append, List.map_cons, List.map_nil, occ_append, occ_nil, bvals]; omega)
     (by intro v hv; right; simpa [bvals] using hv)
     (by intro ho; rw [harr] at ho; cases ho)
+    src
     (by
       intro v hv
       simp only [List.map_append, List.map_cons, List.map_nil, List.mem_append, List.mem_singleton] at hv
       rcases hv with h1 | h1
-      · exact noself_of_block inv hb v h1
-      · rw [h1]; exact hne)
+      · exact Or.inl h1
+      · exact Or.inr (Or.inr h1))
+    hacyc
   simpa using this
+
+/-- in a heap where the only new edge goes from the parent of `l` to the new block `N` (which has no elements),
+a path into `N` from an older block passes through the parent -/
+theorem reach_into_fresh {h h1 : Heap} {l : Loc} {N : Nat} {bN : Block}
+    (hedges : ∀ x y, Edge h1 x y → Edge h x y ∨ (parentOf l = some x ∧ y = N))
+    (hN : getB h1 N = .ok bN) (hempty : bN.items = []) (hold : ∀ x y, Edge h x y → y ≠ N) :
+    ∀ {x z : Nat}, Reach h1 x z → (z ≠ N → Reach h x z) ∧ (z = N → x = N ∨ ∃ P, parentOf l = some P ∧ Reach h x P) := by
+  intro x z r
+  induction r with
+  | refl x => exact ⟨fun _ => Reach.refl x, fun e => Or.inl e⟩
+  | @step x y z e r ih =>
+    rcases hedges x y e with e0 | ⟨hp, hy⟩
+    · refine ⟨fun hz => Reach.step e0 (ih.1 hz), fun hz => ?_⟩
+      rcases ih.2 hz with h1' | ⟨P, hP, hr⟩
+      · exact absurd h1' (hold x y e0)
+      · exact Or.inr ⟨P, hP, Reach.step e0 hr⟩
+    · subst hy
+      refine ⟨fun hz => ?_, fun _ => Or.inr ⟨x, hp, Reach.refl x⟩⟩
+      exact absurd (reach_from_leaf hN hempty r) hz
 
 /-- `operator<<(const Var&)` -/
 theorem Inv.appendAt {σ : State} {T : List V} {l : Loc} {src : V} (inv : Inv σ T) (hl : ValidLoc σ l)
     (hsrc : LiveV σ.heap src)
-    (hcyc : ∀ id, readLoc σ l = .ok (.arr id) → handleOf src ≠ some id) :
+    (hcyc : ∀ id c, readLoc σ l = .ok (.arr id) → handleOf src = some c → ¬ Reach σ.heap c id)
+    (hcycN : readLoc σ l = .ok V.none → ∀ P c, parentOf l = some P → handleOf src = some c → ¬ Reach σ.heap c P) :
     Var.appendAt true σ l src = .error .sharedGrowth ∨
     ∃ σ', Var.appendAt true σ l src = .ok σ' ∧ Inv σ' T ∧ σ'.slots.length = σ.slots.length := by
   obtain ⟨v, hr, hheld⟩ := readLoc_valid hl T
+  have hliveE : ∀ x y, Edge σ.heap x y → y < σ.heap.length := by
+    intro x y e
+    obtain ⟨bx, hbx, w, hw, hid⟩ := e
+    exact inv.wf.handle_lt (Or.inr (mem_hvals_of_getB hbx hw)) hid
   unfold Var.appendAt
   simp only [bind, Except.bind, hr]
   cases v with
@@ -2055,7 +2426,7 @@ theorem Inv.appendAt {σ : State} {T : List V} {l : Loc} {src : V} (inv : Inv σ
     simp only []
     obtain ⟨b, hb, hk⟩ := inv.wf.live _ hheld id rfl
     simp only [isObjV] at hk
-    have hne := hcyc id hr
+    have hne : handleOf src ≠ some id := fun h0 => hcyc id id hr h0 (Reach.refl id)
     rcases inv.growInsertAt hl (by rw [hk]; exact hr) hb with h1 | ⟨σ1, id1, h1, inv1, g⟩
     · left; simp [h1]
     · right
@@ -2066,33 +2437,45 @@ theorem Inv.appendAt {σ : State} {T : List V} {l : Loc} {src : V} (inv : Inv σ
       simp only [hc]
       obtain ⟨b2, hb2, e3, e4, _⟩ := same.get hb1
       simp only [hb2, pure, Except.pure]
-      have hne2 : handleOf src ≠ some id1 := by
-        rcases g.fresh with e | e
-        · rw [e]; exact hne
-        · rw [e]; intro hs
-          obtain ⟨bs, hbs, _⟩ := hsrc _ hs
-          have := getB_lt hbs
-          omega
+      have hacyc2 : ∀ c, handleOf src = some c → ¬ Reach h2 c id1 := by
+        intro c hc' r
+        have r1 : Reach σ1.heap c id1 := (Reach.of_same same).mp r
+        have r0 := Reach.rename _ g.edges r1
+        have hcl : c < σ.heap.length := by
+          obtain ⟨bs, hbs, _⟩ := hsrc c hc'
+          exact getB_lt hbs
+        have hcn : (if c = id1 then id else c) = c := by
+          rcases g.fresh with e | e
+          · rw [e]; split <;> simp_all
+          · have : c ≠ id1 := by omega
+            simp [this]
+        simp only [hcn, if_true] at r0
+        exact hcyc id c hr hc' r0
       have := Inv.push (σ := { σ1 with heap := h2 }) (T := T) (id := id1) (b := b2) (src := src) inv2 hb2
-        (by rw [e4, e2, hk]) hne2
+        (by rw [e4, e2, hk]) hacyc2
       exact ⟨_, rfl, this, g.slots⟩
   | none =>
     simp only [allocB]
     right
-    obtain ⟨σ1, hw, inv1, hs1, hl1, hr1, hb1, hkeep⟩ := inv.vivify false hl hr
+    obtain ⟨σ1, hw, inv1, hs1, hl1, hr1, hb1, hkeep, hedges⟩ := inv.vivify false hl hr
     rw [mkHandle_false] at hw
     simp only [hw]
     obtain ⟨h2, hc, inv2, same⟩ := inv1.copyLive (hkeep src hsrc)
     simp only [hc]
     obtain ⟨b2, hb2, e3, e4, _⟩ := same.get hb1
     simp only [hb2, pure, Except.pure]
-    have hne2 : handleOf src ≠ some σ.heap.length := by
-      intro hs
-      obtain ⟨bs, hbs, _⟩ := hsrc _ hs
-      have := getB_lt hbs
-      omega
+    have hacyc2 : ∀ c, handleOf src = some c → ¬ Reach h2 c σ.heap.length := by
+      intro c hc' r
+      have r1 : Reach σ1.heap c σ.heap.length := (Reach.of_same same).mp r
+      have hcl : c < σ.heap.length := by
+        obtain ⟨bs, hbs, _⟩ := hsrc c hc'
+        exact getB_lt hbs
+      have key := (reach_into_fresh (l := l) hedges hb1 rfl (fun x y e => by have := hliveE x y e; omega) r1).2 rfl
+      rcases key with h0 | ⟨P, hP, hrP⟩
+      · omega
+      · exact hcycN hr P c hP hc' hrP
     have := Inv.push (σ := { σ1 with heap := h2 }) (T := T) (id := σ.heap.length) (b := b2) (src := src) inv2 hb2
-      (by rw [e4]; rfl) hne2
+      (by rw [e4]; rfl) hacyc2
     exact ⟨_, rfl, this, hs1⟩
   | null => right; exact ⟨σ, rfl, inv, rfl⟩
   | bool _ => right; exact ⟨σ, rfl, inv, rfl⟩
@@ -2164,12 +2547,14 @@ theorem Inv.removeItems {σ : State} {T : List V} {id i n : Nat} {b : Block} (in
         · exact Or.inr (Or.inr h1)
         · exact Or.inr (Or.inl h1))
       (by intro ho; exact List.Pairwise.sublist hsub (inv.sorted id b hb ho))
+      V.none
       (by
         intro v hv
-        apply noself_of_block inv hb v
-        rw [List.mem_map] at hv ⊢
+        left
+        rw [List.mem_map] at hv
         obtain ⟨kv, hkv, e⟩ := hv
-        exact ⟨kv, hsub.subset hkv, e⟩)
+        rw [← e]; exact List.mem_map_of_mem (hsub.subset hkv))
+      (by intro c hc; cases hc)
     obtain ⟨h', hd, inv', _⟩ := Inv.drop (wl := ((b.items.drop i).take n).map (·.2)) (T := T) invr
     simp only [hd, pure, Except.pure]
     exact ⟨_, rfl, inv', rfl⟩
@@ -2246,7 +2631,7 @@ theorem Inv.clearV {σ : State} {T : List V} {l : Loc} (inv : Inv σ T) (hl : Va
 
 theorem Inv.replaceSlot {σ : State} {T : List V} {k : Nat} {v : V} (inv : Inv σ (v :: T)) (hk : k < σ.slots.length) :
     ∃ σ', Var.replaceSlot σ k v = .ok σ' ∧ Inv σ' T ∧ σ'.slots.length = σ.slots.length := by
-  obtain ⟨σ1, old, hr, hw, inv1, dom, _⟩ := inv.writeLoc (l := .slot k) hk (fun _ h => by simp [parentOf] at h)
+  obtain ⟨σ1, old, hr, hw, inv1, dom, _⟩ := inv.writeLoc (l := .slot k) hk (fun _ _ h => by simp [parentOf] at h)
   simp only [Var.writeLoc, hk, if_true, Except.ok.injEq] at hw
   subst hw
   have hold : slotV σ k = old := by
@@ -2262,44 +2647,50 @@ theorem Inv.replaceSlot {σ : State} {T : List V} {k : Nat} {v : V} (inv : Inv 
 theorem Inv.mkType {σ : State} {T : List V} (ty : Nat) (inv : Inv σ T) :
     Var.mkType σ.heap ty = .error .badarg ∨
     ∃ h' v, Var.mkType σ.heap ty = .ok (h', v) ∧ Inv { σ with heap := h' } (v :: T) ∧
-      (∃ x, h' = σ.heap ++ x) ∧ (∀ id, handleOf v = some id → σ.heap.length ≤ id) := by
+      (∃ x, h' = σ.heap ++ x) ∧ (∀ id, handleOf v = some id → σ.heap.length ≤ id) ∧
+      (∀ id, handleOf v = some id → ∃ b, getB h' id = .ok b ∧ b.items = []) := by
   unfold Var.mkType
   by_cases h0 : ty = tNONE
   · right; simp only [h0, if_true]
-    exact ⟨σ.heap, V.none, rfl, (Inv.scalar rfl).mpr inv, ⟨[], by simp⟩, by intro id h; cases h⟩
+    exact ⟨σ.heap, V.none, rfl, (Inv.scalar rfl).mpr inv, ⟨[], by simp⟩, (fun id h => nomatch h), (fun id h => nomatch h)⟩
   by_cases h1 : ty = tNUL
   · right; simp only [h0, h1, if_true, if_false]
-    exact ⟨σ.heap, V.null, rfl, (Inv.scalar rfl).mpr inv, ⟨[], by simp⟩, by intro id h; cases h⟩
+    exact ⟨σ.heap, V.null, rfl, (Inv.scalar rfl).mpr inv, ⟨[], by simp⟩, (fun id h => nomatch h), (fun id h => nomatch h)⟩
   by_cases h2 : ty = tSSTRING
   · right; simp only [h0, h1, h2, if_true, if_false]
-    exact ⟨σ.heap, V.sstr [], rfl, (Inv.scalar rfl).mpr inv, ⟨[], by simp⟩, by intro id h; cases h⟩
+    exact ⟨σ.heap, V.sstr [], rfl, (Inv.scalar rfl).mpr inv, ⟨[], by simp⟩, (fun id h => nomatch h), (fun id h => nomatch h)⟩
   by_cases h3 : ty = tSTRING
   · right; simp only [h0, h1, h2, h3, if_true, if_false]
-    exact ⟨σ.heap, V.str [], rfl, (Inv.scalar rfl).mpr inv, ⟨[], by simp⟩, by intro id h; cases h⟩
+    exact ⟨σ.heap, V.str [], rfl, (Inv.scalar rfl).mpr inv, ⟨[], by simp⟩, (fun id h => nomatch h), (fun id h => nomatch h)⟩
   by_cases h4 : ty = tARRAY
   · right; simp only [h0, h1, h2, h3, h4, if_true, if_false, allocB]
     have := Inv.alloc (σ := σ) (T := T) (b := emptyBlock false) (by simpa [bvals, emptyBlock] using inv) rfl
       (by intro h; cases h)
-    exact ⟨_, _, rfl, this, ⟨_, rfl⟩, by intro id h; simp [handleOf] at h; omega⟩
+    exact ⟨_, _, rfl, this, ⟨_, rfl⟩, by intro id h; simp [handleOf] at h; omega,
+      by intro id h; simp [handleOf] at h; subst h; exact ⟨_, getB_alloc_new _ _, rfl⟩⟩
   by_cases h5 : ty = tOBJ
   · right; simp only [h0, h1, h2, h3, h4, h5, if_true, if_false, allocB]
     have := Inv.alloc (σ := σ) (T := T) (b := emptyBlock true) (by simpa [bvals, emptyBlock] using inv) rfl
       (by intro _; simp [emptyBlock, SortedItems, AslProofs.Map.Sorted])
-    exact ⟨_, _, rfl, this, ⟨_, rfl⟩, by intro id h; simp [handleOf] at h; omega⟩
+    exact ⟨_, _, rfl, this, ⟨_, rfl⟩, by intro id h; simp [handleOf] at h; omega,
+      by intro id h; simp [handleOf] at h; subst h; exact ⟨_, getB_alloc_new _ _, rfl⟩⟩
   left; simp only [h0, h1, h2, h3, h4, h5, if_false]
 
 theorem Inv.assignType {σ : State} {T : List V} {t : Loc} {ty : Nat} (inv : Inv σ T) (hl : ValidLoc σ t) :
     Var.assignType σ t ty = .error .badarg ∨
     ∃ σ', Var.assignType σ t ty = .ok σ' ∧ Inv σ' T ∧ σ'.slots.length = σ.slots.length := by
   unfold Var.assignType
-  rcases inv.mkType ty with h1 | ⟨h', v, h1, inv1, ⟨x, hx⟩, hfresh⟩
+  rcases inv.mkType ty with h1 | ⟨h', v, h1, inv1, ⟨x, hx⟩, hfresh, hleaf⟩
   · left; simp [h1, bind, Except.bind]
   · right
     simp only [h1, bind, Except.bind]
     have hl1 : ValidLoc { σ with heap := h' } t := by rw [hx]; exact validLoc_append x hl
     obtain ⟨σ2, ha, inv2, hs2⟩ := Inv.assignV (T := v :: T) (src := v) inv1 hl1 (Held.live inv1 (Or.inr (Or.inl (by simp)))) (by
-      intro P hP hv
-      have := hfresh P hv
+      -- the new block has no elements: nothing is reachable from it
+      intro P c hP hv r
+      have hge := hfresh c hv
+      obtain ⟨bc, hbc, hempty⟩ := hleaf c hv
+      have := reach_from_leaf hbc hempty r
       cases t with
       | slot k => simp [parentOf] at hP
       | item P' i =>
@@ -2356,14 +2747,57 @@ theorem Inv.reaches_benign {σ : State} {T : List V} (inv : Inv σ T) (t : Nat) 
 
 theorem travFuel_pos (h : Heap) : ∃ f, travFuel h = f + 1 := ⟨h.length + 1, rfl⟩
 
+theorem anyE_false {α : Type} {p : α → Except Err Bool} : ∀ {l : List α}, anyE l p = .ok false → ∀ x ∈ l, p x = .ok false
+  | [], _, x, hx => by cases hx
+  | y :: ys, h, x, hx => by
+    simp only [anyE] at h
+    cases hy : p y with
+    | error e => simp [hy] at h
+    | ok b =>
+      cases b with
+      | true => simp [hy] at h
+      | false =>
+        simp only [hy] at h
+        rcases List.mem_cons.mp hx with rfl | hx
+        · exact hy
+        · exact anyE_false h x hx
+
+
+/-- a negative verdict of the executable guard is a proof that there is no path -/
+theorem reaches_false_not_reach {h : Heap} {B : Nat} : ∀ (f : Nat) (v : V) (c : Nat), reaches f h B v = .ok false →
+    handleOf v = some c → ¬ Reach h c B
+  | 0, _, _, hr, _ => by simp [reaches] at hr
+  | f + 1, v, c, hr, hc => by
+    simp only [reaches, hc] at hr
+    by_cases he : c = B
+    · simp [he] at hr
+    · simp only [he, if_false] at hr
+      cases hb : getB h c with
+      | error e => simp [hb] at hr
+      | ok b =>
+        simp only [hb] at hr
+        have hch := anyE_false hr
+        intro r
+        cases r with
+        | refl _ => exact he rfl
+        | step e r' =>
+          obtain ⟨b', hb', w, hw, hid⟩ := e
+          rw [hb] at hb'; cases hb'
+          simp only [bvals, List.mem_map] at hw
+          obtain ⟨kv, hkv, rfl⟩ := hw
+          exact reaches_false_not_reach f kv.2 _ (hch kv hkv) hid r'
+
+
+
 /-- outcome of `wouldCycle`: refused for depth, or a verdict; a negative verdict means the value is not the
 handle of the parent block itself -/
 theorem Inv.wouldCycle {σ : State} {T : List V} (inv : Inv σ T) (t : Loc) {src : V} (hs : LiveV σ.heap src) :
     Var.wouldCycle σ.heap (parentOf t) src = .error .fuel ∨ Var.wouldCycle σ.heap (parentOf t) src = .ok true ∨
-    (Var.wouldCycle σ.heap (parentOf t) src = .ok false ∧ ∀ id, parentOf t = some id → handleOf src ≠ some id) := by
+    (Var.wouldCycle σ.heap (parentOf t) src = .ok false ∧
+      ∀ id c, parentOf t = some id → handleOf src = some c → ¬ Reach σ.heap c id) := by
   unfold Var.wouldCycle
   cases hp : parentOf t with
-  | none => right; right; exact ⟨rfl, fun id h => by cases h⟩
+  | none => right; right; exact ⟨rfl, fun id c h => by cases h⟩
   | some P =>
     simp only []
     obtain ⟨f, hf⟩ := travFuel_pos σ.heap
@@ -2372,10 +2806,9 @@ theorem Inv.wouldCycle {σ : State} {T : List V} (inv : Inv σ T) (t : Loc) {src
       | true => right; left; exact hb
       | false =>
         right; right
-        refine ⟨hb, fun id hid => ?_⟩
+        refine ⟨hb, fun id c hid hc => ?_⟩
         cases hid
-        rw [hf] at hb
-        exact reaches_false_ne hb
+        exact reaches_false_not_reach _ src c hb hc
     · left; exact hb
 
 
@@ -2455,7 +2888,7 @@ theorem cloneOK : ∀ f, CloneOK f
 
 theorem Inv.extendLoop {k sid : Nat} : ∀ (n : Nat) (σ : State) (T : List V) (i : Nat), Inv σ T → V.obj sid ∈ T →
     k < σ.slots.length →
-    (∃ e, Var.extendLoop true sid n σ (.slot k) i = .error e ∧ (e = .sharedGrowth ∨ e = .badarg ∨ e = .cyclic)) ∨
+    (∃ e, Var.extendLoop true sid n σ (.slot k) i = .error e ∧ (e = .sharedGrowth ∨ e = .badarg ∨ e = .cyclic ∨ e = .fuel)) ∨
     ∃ σ', Var.extendLoop true sid n σ (.slot k) i = .ok σ' ∧ Inv σ' T ∧ σ'.slots.length = σ.slots.length
   | 0, σ, T, i, inv, _, _ => Or.inr ⟨σ, rfl, inv, rfl⟩
   | n + 1, σ, T, i, inv, hsid, hk => by
@@ -2479,27 +2912,39 @@ theorem Inv.extendLoop {k sid : Nat} : ∀ (n : Nat) (σ : State) (T : List V) (
         cases v with
         | obj id =>
           simp only []
-          by_cases hself : handleOf x = some id
-          · simp only [hself, if_true]; exact Or.inl ⟨_, rfl, Or.inr (Or.inr rfl)⟩
-          · simp only [hself, if_false]
-            obtain ⟨b, hb, hkind⟩ := inv.wf.live _ hheld id rfl
-            simp only [isObjV] at hkind
-            rcases inv.indexKey (k := key) hl hr hb hkind with h1 | ⟨σ1, id', p, h1, inv1, hs1, _, _, hv1, hkeep, hfresh⟩
-            · simp only [h1]; exact Or.inl ⟨_, rfl, Or.inl rfl⟩
-            · simp only [h1]
-              obtain ⟨σ2, ha, inv2, hs2⟩ := Inv.assignV (src := x) inv1 hv1 (hkeep x hxlive hself) (by
-                intro P hP
-                simp only [parentOf, Option.some.injEq] at hP; subst hP
-                rcases hfresh with e | e
-                · rw [e]; exact hself
-                · rw [e]; intro hs
-                  obtain ⟨bs, hbs, _⟩ := hxlive _ hs
-                  have := getB_lt hbs
-                  omega)
-              simp only [ha]
-              rcases Inv.extendLoop n σ2 T (i + 1) inv2 hsid (by rw [hs2, hs1]; exact hk) with ⟨e, h2, he⟩ | ⟨σ', h2, inv', hs'⟩
-              · exact Or.inl ⟨e, h2, he⟩
-              · exact Or.inr ⟨σ', h2, inv', by rw [hs', hs2, hs1]⟩
+          rcases inv.reaches_benign id (travFuel σ.heap) x hxlive with ⟨rb, hrb⟩ | hrb
+          · rw [hrb]
+            cases rb with
+            | true => exact Or.inl ⟨_, rfl, Or.inr (Or.inr (Or.inl rfl))⟩
+            | false =>
+              simp only []
+              have hnoreach : ∀ c, handleOf x = some c → ¬ Reach σ.heap c id :=
+                fun c hc => reaches_false_not_reach _ x c hrb hc
+              have hself : handleOf x ≠ some id := fun h0 => hnoreach id h0 (Reach.refl id)
+              obtain ⟨b, hb, hkind⟩ := inv.wf.live _ hheld id rfl
+              simp only [isObjV] at hkind
+              rcases inv.indexKey (k := key) hl hr hb hkind with h1 | ⟨σ1, id', p, h1, inv1, hs1, _, _, hv1, hkeep, hfresh, hedges⟩
+              · simp only [h1]; exact Or.inl ⟨_, rfl, Or.inl rfl⟩
+              · simp only [h1]
+                obtain ⟨σ2, ha, inv2, hs2⟩ := Inv.assignV (src := x) inv1 hv1 (hkeep x hxlive hself) (by
+                  intro P c hP hc r
+                  simp only [parentOf, Option.some.injEq] at hP; subst hP
+                  have r0 := Reach.rename _ hedges r
+                  have hcl : c < σ.heap.length := by
+                    obtain ⟨bs, hbs, _⟩ := hxlive c hc
+                    exact getB_lt hbs
+                  have hcn : (if c = id' then id else c) = c := by
+                    rcases hfresh with e | e
+                    · rw [e]; split <;> simp_all
+                    · have : c ≠ id' := by omega
+                      simp [this]
+                  simp only [hcn, if_true] at r0
+                  exact hnoreach c hc r0)
+                simp only [ha]
+                rcases Inv.extendLoop n σ2 T (i + 1) inv2 hsid (by rw [hs2, hs1]; exact hk) with ⟨e, h2, he⟩ | ⟨σ', h2, inv', hs'⟩
+                · exact Or.inl ⟨e, h2, he⟩
+                · exact Or.inr ⟨σ', h2, inv', by rw [hs', hs2, hs1]⟩
+          · rw [hrb]; exact Or.inl ⟨_, rfl, Or.inr (Or.inr (Or.inr rfl))⟩
         | none => exact Or.inl ⟨_, rfl, Or.inr (Or.inl rfl)⟩
         | null => exact Or.inl ⟨_, rfl, Or.inr (Or.inl rfl)⟩
         | bool _ => exact Or.inl ⟨_, rfl, Or.inr (Or.inl rfl)⟩
@@ -2518,7 +2963,7 @@ theorem Inv.toObjIfNone {σ : State} {T : List V} {l : Loc} (inv : Inv σ T) (hl
   rw [hr]
   cases v with
   | none =>
-    obtain ⟨σ1, hw, inv1, hs1, hl1, _, _, hkeep⟩ := inv.vivify true hl hr
+    obtain ⟨σ1, hw, inv1, hs1, hl1, _, _, hkeep, _⟩ := inv.vivify true hl hr
     rw [mkHandle_true] at hw
     exact ⟨σ1, by simp only [allocB]; exact hw, inv1, hs1, hl1, hkeep⟩
   | null => exact ⟨σ, rfl, inv, rfl, hl, fun _ h => h⟩
@@ -2533,7 +2978,7 @@ theorem Inv.toObjIfNone {σ : State} {T : List V} {l : Loc} (inv : Inv σ T) (hl
 
 theorem Inv.extendObj {σ0 : State} {T : List V} {k : Nat} {src : V} (inv0 : Inv σ0 T) (hk : k < σ0.slots.length)
     (hsrc0 : LiveV σ0.heap src) :
-    (∃ e, Var.extendObj true σ0 (.slot k) src = .error e ∧ (e = .sharedGrowth ∨ e = .badarg ∨ e = .cyclic)) ∨
+    (∃ e, Var.extendObj true σ0 (.slot k) src = .error e ∧ (e = .sharedGrowth ∨ e = .badarg ∨ e = .cyclic ∨ e = .fuel)) ∨
     ∃ σ', Var.extendObj true σ0 (.slot k) src = .ok σ' ∧ Inv σ' T ∧ σ'.slots.length = σ0.slots.length := by
   have hl0 : ValidLoc σ0 (.slot k) := hk
   obtain ⟨v0, hr0, _⟩ := readLoc_valid hl0 T
@@ -2561,7 +3006,7 @@ theorem Inv.extendObj {σ0 : State} {T : List V} {k : Nat} {src : V} (inv0 : Inv
 /-- `extend` on a root variable -/
 theorem Inv.extendV {σ : State} {T : List V} {k : Nat} {src : V} (inv : Inv σ T) (hk : k < σ.slots.length)
     (hsrc : LiveV σ.heap src) :
-    (∃ e, Var.extendV true σ (.slot k) src = .error e ∧ (e = .sharedGrowth ∨ e = .badarg ∨ e = .cyclic)) ∨
+    (∃ e, Var.extendV true σ (.slot k) src = .error e ∧ (e = .sharedGrowth ∨ e = .badarg ∨ e = .cyclic ∨ e = .fuel)) ∨
     ∃ σ', Var.extendV true σ (.slot k) src = .ok σ' ∧ Inv σ' T ∧ σ'.slots.length = σ.slots.length := by
   obtain ⟨σ0, h0, inv0, hs0, _, hkeep⟩ := inv.toObjIfNone (l := .slot k) hk
   unfold Var.extendV
@@ -2653,7 +3098,8 @@ theorem Inv.cloc {σ : State} {T : List V} (inv : Inv σ T) (q : Path) :
 
 theorem Inv.cycleGuard {σ : State} {T : List V} (inv : Inv σ T) (t : Loc) {src : V} (hs : LiveV σ.heap src) :
     (∃ e, Var.cycleGuard σ.heap (parentOf t) src = .error e ∧ (e = .fuel ∨ e = .cyclic)) ∨
-    (Var.cycleGuard σ.heap (parentOf t) src = .ok () ∧ ∀ id, parentOf t = some id → handleOf src ≠ some id) := by
+    (Var.cycleGuard σ.heap (parentOf t) src = .ok () ∧
+      ∀ id c, parentOf t = some id → handleOf src = some c → ¬ Reach σ.heap c id) := by
   unfold Var.cycleGuard
   rcases inv.wouldCycle t hs with h1 | h1 | ⟨h1, h2⟩
   · left; exact ⟨_, by rw [h1], Or.inl rfl⟩
@@ -2686,7 +3132,9 @@ theorem Inv.opSetV {σ : State} {t : Loc} (q : Path) (inv : Inv σ []) (hl : Val
 
 theorem Inv.appGuard {σ : State} {t : Loc} (q : Path) {src v : V} (inv : Inv σ []) (hs : LiveV σ.heap src) :
     (∃ e, Var.appGuard σ t q src v = .error e ∧ Refusal e) ∨
-    (Var.appGuard σ t q src v = .ok () ∧ ∀ id, v = .arr id → handleOf src ≠ some id) := by
+    (Var.appGuard σ t q src v = .ok () ∧
+      (∀ id c, v = .arr id → handleOf src = some c → ¬ Reach σ.heap c id) ∧
+      (v = .none → ∀ P c, parentOf t = some P → handleOf src = some c → ¬ Reach σ.heap c P)) := by
   unfold Var.appGuard
   cases v with
   | arr id =>
@@ -2698,14 +3146,13 @@ theorem Inv.appGuard {σ : State} {t : Loc} (q : Path) {src v : V} (inv : Inv σ
       | true => left; exact ⟨_, rfl, Or.inr (Or.inl rfl)⟩
       | false =>
         right
-        refine ⟨rfl, fun id' hid' => ?_⟩
+        refine ⟨rfl, ⟨(fun id' c hid' hc => ?_), (fun h0 => nomatch h0)⟩⟩
         cases hid'
-        rw [hf] at hb
-        exact reaches_false_ne hb
+        exact reaches_false_not_reach _ src c hb hc
     · rw [hb]; left; exact ⟨_, rfl, Or.inr (Or.inr (Or.inr (Or.inr rfl)))⟩
   | none =>
     simp only []
-    rcases inv.cycleGuard t hs with ⟨e, h2, he⟩ | ⟨h2, _⟩
+    rcases inv.cycleGuard t hs with ⟨e, h2, he⟩ | ⟨h2, hcg⟩
     · left; refine ⟨e, by simp only [h2], ?_⟩
       rcases he with he | he <;> subst he
       · exact Or.inr (Or.inr (Or.inr (Or.inr rfl)))
@@ -2716,15 +3163,15 @@ theorem Inv.appGuard {σ : State} {t : Loc} (q : Path) {src v : V} (inv : Inv σ
       · simp only [h3]
         by_cases hsl : r = some t
         · left; simp only [hsl, if_true]; exact ⟨_, rfl, Or.inr (Or.inl rfl)⟩
-        · right; exact ⟨by simp only [hsl, if_false], fun id h => by cases h⟩
-  | null => right; exact ⟨rfl, fun id h => by cases h⟩
-  | bool _ => right; exact ⟨rfl, fun id h => by cases h⟩
-  | int _ => right; exact ⟨rfl, fun id h => by cases h⟩
-  | num _ => right; exact ⟨rfl, fun id h => by cases h⟩
-  | flt _ => right; exact ⟨rfl, fun id h => by cases h⟩
-  | sstr _ => right; exact ⟨rfl, fun id h => by cases h⟩
-  | str _ => right; exact ⟨rfl, fun id h => by cases h⟩
-  | obj _ => right; exact ⟨rfl, fun id h => by cases h⟩
+        · right; exact ⟨by simp only [hsl, if_false], ⟨(fun id c h => nomatch h), (fun _ => hcg)⟩⟩
+  | null => right; exact ⟨rfl, ⟨(fun id c h => nomatch h), (fun h => nomatch h)⟩⟩
+  | bool _ => right; exact ⟨rfl, ⟨(fun id c h => nomatch h), (fun h => nomatch h)⟩⟩
+  | int _ => right; exact ⟨rfl, ⟨(fun id c h => nomatch h), (fun h => nomatch h)⟩⟩
+  | num _ => right; exact ⟨rfl, ⟨(fun id c h => nomatch h), (fun h => nomatch h)⟩⟩
+  | flt _ => right; exact ⟨rfl, ⟨(fun id c h => nomatch h), (fun h => nomatch h)⟩⟩
+  | sstr _ => right; exact ⟨rfl, ⟨(fun id c h => nomatch h), (fun h => nomatch h)⟩⟩
+  | str _ => right; exact ⟨rfl, ⟨(fun id c h => nomatch h), (fun h => nomatch h)⟩⟩
+  | obj _ => right; exact ⟨rfl, ⟨(fun id c h => nomatch h), (fun h => nomatch h)⟩⟩
 
 theorem Inv.opApp {σ : State} {t : Loc} (q : Path) (inv : Inv σ []) (hl : ValidLoc σ t) : BodyOK σ (Var.opApp true σ t q) := by
   unfold Var.opApp
@@ -2734,10 +3181,12 @@ theorem Inv.opApp {σ : State} {t : Loc} (q : Path) (inv : Inv σ []) (hl : Vali
     have hlive := Held.live inv hsrc
     obtain ⟨v, hr, _⟩ := readLoc_valid hl []
     simp only [hr]
-    rcases inv.appGuard (t := t) q (v := v) hlive with ⟨e, h2, he⟩ | ⟨h2, hne⟩
+    rcases inv.appGuard (t := t) q (v := v) hlive with ⟨e, h2, he⟩ | ⟨h2, hne, hneN⟩
     · left; exact ⟨e, by simp only [h2], he⟩
     · simp only [h2]
-      rcases inv.appendAt hl hlive (fun id hid => hne id (by rw [hr] at hid; cases hid; rfl)) with h3 | ⟨σ', h3, inv', hs⟩
+      rcases inv.appendAt hl hlive
+          (fun id c hid hc => hne id c (by rw [hr] at hid; exact (Except.ok.inj hid)) hc)
+          (fun hid => hneN (by rw [hr] at hid; exact (Except.ok.inj hid))) with h3 | ⟨σ', h3, inv', hs⟩
       · left; exact ⟨_, h3, Or.inl rfl⟩
       · right; exact ⟨σ', h3, inv', hs⟩
 
@@ -2815,10 +3264,11 @@ theorem Inv.opExtend {σ : State} {k : Nat} (q : Path) (inv : Inv σ []) (hk : k
     · simp only [h2]
       rcases inv.extendV hk hlive with ⟨e, h3, he⟩ | ⟨σ', h3, inv', hs⟩
       · left; refine ⟨e, h3, ?_⟩
-        rcases he with he | he | he <;> subst he
+        rcases he with he | he | he | he <;> subst he
         · exact Or.inl rfl
         · exact Or.inr (Or.inr (Or.inr (Or.inl rfl)))
         · exact Or.inr (Or.inl rfl)
+        · exact Or.inr (Or.inr (Or.inr (Or.inr rfl)))
       · right; exact ⟨σ', h3, inv', hs⟩
 
 /-- histories in which `extend` is applied to root variables only (the case covered by the proof) -/
@@ -2865,7 +3315,8 @@ theorem Inv.opBody {σ : State} {t : Loc} (op : Op) (inv : Inv σ []) (hl : Vali
   | app p q => exact inv.opApp q hl
   | appLit p l =>
     rcases inv.appendAt (src := l.toV) hl (fun id hid => by rw [Lit.toV_scalar] at hid; cases hid)
-      (fun id _ => by rw [Lit.toV_scalar]; intro h; cases h) with h | h
+      (fun id c _ hc => by rw [Lit.toV_scalar] at hc; cases hc)
+      (fun _ P c _ hc => by rw [Lit.toV_scalar] at hc; cases hc) with h | h
     · exact Or.inl ⟨_, h, sg⟩
     · exact Or.inr h
   | resize p n =>
@@ -3033,7 +3484,7 @@ theorem Inv.init (n : Nat) : Inv (initState n) [] := by
   · intro id b hb; simp [initState, getB] at hb
   · intro id b hb; simp [initState, getB] at hb
   · intro id b hb; simp [initState, getB] at hb
-  · intro id b hb; simp [initState, getB] at hb
+  · exact ⟨fun _ => 0, fun x y e => by obtain ⟨b, hb, _⟩ := e; simp [initState, getB] at hb⟩
 
 
 
@@ -3055,21 +3506,6 @@ theorem mapO_congr_some {α β : Type} {g g' : α → Option β} : ∀ {l : List
         simp only [hxs] at h
         rw [hg x (by simp) y hx, mapO_congr_some hxs (fun z hz => hg z (by simp [hz]))]
         exact h
-
-theorem anyE_false {α : Type} {p : α → Except Err Bool} : ∀ {l : List α}, anyE l p = .ok false → ∀ x ∈ l, p x = .ok false
-  | [], _, x, hx => by cases hx
-  | y :: ys, h, x, hx => by
-    simp only [anyE] at h
-    cases hy : p y with
-    | error e => simp [hy] at h
-    | ok b =>
-      cases b with
-      | true => simp [hy] at h
-      | false =>
-        simp only [hy] at h
-        rcases List.mem_cons.mp hx with rfl | hx
-        · exact hy
-        · exact anyE_false h x hx
 
 theorem content_scalar_indep {v : V} (hv : handleOf v = none) (f : Nat) (h h1 : Heap) : content f h1 v = content f h v := by
   cases f with
@@ -3272,7 +3708,6 @@ theorem readLoc_sub {σ : State} {h' : Heap} (sub : SubItems σ.heap h') {l : Lo
 particular one stored inside the target — the target Var (if it survives the release of its old content, which it
 always does when it is a root variable) holds `src`, and `src` denotes the same tree as before. -/
 theorem Inv.assignV_spec {σ σ' : State} {t : Loc} {src : V} (inv : Inv σ []) (hl : ValidLoc σ t) (hs : LiveV σ.heap src)
-    (hself : ∀ id, parentOf t = some id → handleOf src ≠ some id)
     (hreach : ∀ B, parentOf t = some B → ∃ f', reaches f' σ.heap B src = .ok false)
     (ha : Var.assignV σ t src = .ok σ') :
     (∀ v', readLoc σ' t = .ok v' → v' = src) ∧
@@ -3286,14 +3721,16 @@ theorem Inv.assignV_spec {σ σ' : State} {t : Loc} {src : V} (inv : Inv σ []) 
   split at ha
   · -- STRING := STRING in place
     rename_i s0 s
-    obtain ⟨σ1, old', _, hw, _, _, hrd⟩ := ((Inv.scalar (v := V.str s) rfl).mpr inv).writeLoc hl (fun _ _ => by simp [handleOf])
+    obtain ⟨σ1, old', _, hw, _, _, hrd⟩ := ((Inv.scalar (v := V.str s) rfl).mpr inv).writeLoc hl (fun _ _ _ h => nomatch h)
     rw [hw] at ha; cases ha
     refine ⟨fun v' hv' => by rw [hrd] at hv'; cases hv'; rfl, fun _ _ => hrd, fun f tr hc _ => ?_⟩
     rw [content_scalar_indep (v := V.str s) rfl]; exact hc
   · obtain ⟨h1, hc, inv1, same⟩ := inv.copyLive hs
     simp only [hc] at ha
     have hl1 : ValidLoc { σ with heap := h1 } t := (SameDom.of_same same).validLoc hl
-    obtain ⟨σ2, old', hr', hw, inv2, dom, hrd2⟩ := inv1.writeLoc hl1 hself
+    obtain ⟨σ2, old', hr', hw, inv2, dom, hrd2⟩ := inv1.writeLoc hl1 (fun id c hp hc r => by
+      obtain ⟨f', hf'⟩ := hreach id hp
+      exact reaches_false_not_reach f' src c hf' hc ((Reach.of_same same).mp r))
     rw [readLoc_same same t hr] at hr'; cases hr'
     simp only [hw] at ha
     -- what `src` denotes after the copy and the write
